@@ -1,15 +1,22 @@
 """C06 — Craig-Bampton checks are right on valid models and flag invalid ones (DESIGN.md 6/C06).
 
-Tie: numeric correspondence (1e-9 * scale; exact for index vectors) between the Lean model
-lean/PyYetiVerif/Model/RigidBody.lean, run at Float through Drivers/C06.lean, and
+Tie: numeric correspondence (1e-9 * scale; exact for index vectors, trimmed-DOF lists and warning flags) between the Lean
+model lean/PyYetiVerif/Model/RigidBody.lean + Model/RigidBodyGuyan.lean, run at Float through Drivers/C06.lean, and
   * cb.cgmass, n2p.rbgeom, n2p.rbmove, n2p.rbgeom_uset, cb.cbreorder, cb.cbconvert,
   * cb.cbcheck on free 3-D structures produced by an independent generator in this file (random
     grids, 6-DOF springs through rigid offsets so K*RB = 0 by construction, lumped masses with
     unequal translational masses in some cases, rectangular / cylindrical / spherical output
-    systems via n2p.addgrid, Craig-Bampton reduction in plain numpy).
-The model-free oracle compares the same API results with the generator's ground truth, requires
-grounded / geometry-perturbed variants to be flagged, checks the cbtf equations of motion and the
-inverse / invariance laws of cbconvert and cbreorder.
+    systems via n2p.addgrid, Craig-Bampton reduction in plain numpy; optionally one special boundary grid: massless with
+    stiffness (Guyan reduction in _solve_eig), ball-jointed (null columns in _solve_eig, zero-stiffness trimming in
+    _cbcoordchk), or a spring to ground on all six / on ONE degree of freedom) - every returned array and every numeric
+    table of the printed report (coordinates, movement checks, three 6x6 masses, cg, radii of gyration, inertia, K*RB
+    tables and their sums, effective-mass table with totals, matrix value checks, trimmed DOF lists),
+  * cb._solve_eig directly (null columns, massless DOF, back expansion), cb.rbdispchk, cb.mk_net_drms (net force recovery
+    matrices in both unit systems), cb.rbmultchk, cb.cbtf at exactly 0 Hz.
+The model-free oracle compares the same API results with the generator's ground truth (incl. the printed tables, free-free
+frequencies against the QZ spectrum of the full pencil, mk_net_drms against resultants / rigid mass / cg motion), requires
+grounded / geometry-perturbed variants to be flagged, checks the cbtf equations of motion and the inverse / invariance laws
+of cbconvert and cbreorder.
 """
 import io
 import json
@@ -23,45 +30,73 @@ import numpy as np
 from runner import Infra
 
 ID = "C06"
-LEAN_MODULES = ["PyYetiVerif.Props.C06", "PyYetiVerif.Audit.C06"]
+LEAN_MODULES = ["PyYetiVerif.Props.C06", "PyYetiVerif.Props.C06b", "PyYetiVerif.Props.C06c", "PyYetiVerif.Audit.C06"]
 AUDIT_FILE = "PyYetiVerif/Audit/C06.lean"
 THEOREMS = ["PyYetiVerif.C06." + n for n in (
     "cgmass_recovers cgmass_recovers_general rbmove_comp rbmove_rbgeom reorder_pv_perm reorder_perm "
     "reorder_pencil uset_rank_correct convert_inverse convert_congruence convert_pencil "
-    "stiffness_rb_eq_geometry grounding_iff effmass_total cbtf_satisfies_eom"
+    "stiffness_rb_eq_geometry grounding_iff effmass_total cbtf_satisfies_eom "
+    # extension round: _solve_eig (Guyan reduction, null columns), _cbcoordchk trimming, rbdispchk, mk_net_drms,
+    # rbmultchk, cbtf at 0 Hz
+    "guyan_preserves_eigenpairs guyanK_eq_blocks psiResid_eq_blocks guyanExpand_rows null_trim_sound nullExpand_rows "
+    "coordchk_trim_sound trimRef_spec rbdispchk_recovers_coords rbdispchk_recovers_grid coordchk_coords_local net_force_is_resultant "
+    "net_drm_is_resultant net_force_is_resultant_local rbmult_eq_mul cbtf_static_limit cbtfStaticFrc_eq"
 ).split()]
 TRUSTED = [
-    "correspondence harness harness/props/c06.py (numeric comparison 1e-9*scale, exact for index vectors) and its "
-    "structure generator / numpy Craig-Bampton reduction (ground truth of the oracle)",
-    "scipy.linalg.solve specification koo*X = -kor (residual measured every run); the Float driver uses its own "
-    "Gaussian elimination",
-    "eigen-solver specification: the first six vectors of scipy.sparse.linalg.eigsh(k, p, m, sigma=1) span null(K) "
-    "of a free model (rbe is compared with the model's stiffness-based modes, which the theorem "
-    "stiffness_rb_eq_geometry identifies with them); scipy.linalg.eigh inside cgmass(all6) (principal inertias are "
-    "compared with numpy eigvalsh of the ground truth only)",
-    "ode.SolveUnc.fsolve specification (property C02): cbtf's q-set solve is checked by the oracle's EOM residual",
-    "n2p.addgrid / make_uset produce the uset rows (inputs of the model; their geometry is property C14)",
+    "correspondence harness harness/props/c06.py (numeric comparison 1e-9*scale, exact for index vectors / trimmed DOF lists / "
+    "warning flags; printed tables at half a unit of the last printed digit) and its structure generator / numpy Craig-Bampton "
+    "reduction (ground truth of the oracle)",
+    "scipy.linalg.solve specifications koo*X = -kor (_cbcoordchk) and (-kzz)*psi = kzx (_solve_eig): residuals measured every "
+    "run; the Float driver uses its own Gaussian elimination, and the adjugate inverse for the 3x3 systems of _rbdispchk",
+    "eigen-solver specification: scipy.sparse.linalg.eigsh(k, p, m, sigma=1) returns eigenpairs of the REDUCED pencil, the "
+    "first six spanning null(K) of a free model (rbe is compared with the model's stiffness-based modes; the back-expanded "
+    "vectors are checked against the FULL pencil and its QZ spectrum by the oracle); scipy.linalg.eigh inside cgmass(all6) "
+    "(principal inertias / radii are compared with numpy eigvalsh of the ground truth only)",
+    "ode.SolveUnc.fsolve specification (property C02): cbtf's q-set solve is checked by the oracle's EOM residual; at 0 Hz "
+    "the specification is Kqq dq = -Mqb a (the harness solves the model's right-hand side)",
+    "n2p.addgrid / make_uset produce the uset rows (inputs of the model; their geometry is property C14); n2p.formrbe3 and "
+    "n2p.find_xyz_triples (used by mk_net_drms.ifatm and rbmultchk's printed coordinates) are property C14 and enter the "
+    "oracle only",
     "ytools.mattype symmetry test inside cgmass is not modelled (inputs are symmetric; an asymmetric probe must raise)",
 ]
 RULE = (
     "streams: cgmass (docstring-form matrices with unequal mx,my,mz, rigid transforms of cg masses, structure "
     "masses), rbgeom/rbmove (random grids, reference by index or vector), rbgeom_uset (addgrid tables with basic/"
     "rectangular/cylindrical/spherical output systems incl. grids on the polar axis), cbreorder (index-encoding "
-    "matrices; first/last/drm/lq=0/permuted b), cbconvert (m2e/e2m/tuple; drm), cbcheck (generated free structures: "
-    "1-3 boundary grids, boundary first/last/interleaved and grid-permuted bseto, any boundary grid as bref, "
-    "rb_norm, uref by id or vector, conv None/m2e/e2m/tuple, reorder on/off, 0..all modes). A case is one call "
+    "matrices; first/last/drm/lq=0/permuted b), cbconvert (m2e/e2m/tuple; drm; random b order incl. component-major), "
+    "cbcheck (generated free structures: "
+    "1-4 boundary grids, boundary first/last/interleaved and grid-permuted bseto, any boundary grid as bref, "
+    "rb_norm, uref by id or vector, conv None/m2e/e2m/tuple, reorder on/off, 1..all modes; variants valid / grounded on six "
+    "DOF / grounded through one DOF / misplaced boundary grid; 40% with one special boundary grid: massless6, massless-rot, "
+    "pinned, and the pinned grid as reference = RuntimeError), _solve_eig (symmetric pencils with 0-3 null columns and 0-4 "
+    "massless DOF, also -0.0 entries), rbdispchk (1-5 nodes in identity / rotated / general bases, exact rows and small or "
+    "large deviations around the warning threshold, three tolerances), mk_net_drms (generated structures, b-set in any "
+    "order, conv, bsubset, ref by id/vector/origin, sccoord rotation), rbmultchk (bset first/last/vector/full rb), cbtf at "
+    "0 Hz (b-set first/last/interleaved/permuted, full damping). A case is one call "
     "compared on all returned quantities; non-trivial = not the identity configuration (a non-zero offset / "
-    "non-basic system / non-sorted bseto / conversion / at least one mode); distinct by the generated input"
+    "non-basic system / non-sorted bseto / conversion / at least one mode / a trimmed DOF); distinct by the generated input"
 )
 ASSUMPTIONS = [
-    "generated structures are well conditioned (cond(koo) <= 1e8, stiffness eigenvalues far from the eigsh shift 1.0); "
-    "others are skipped and counted",
+    "generated structures are well conditioned (cond(koo) <= 1e8, stiffness eigenvalues far from the eigsh shift 1.0, "
+    "cond of the stiffness of massless DOF <= 1e8 / 1e6); others are skipped and counted",
     "b-set vectors are duplicate-free and inside the matrix; boundary grids carry all six DOF, translations first",
+    "zero-stiffness boundary DOF are rotations (a ball joint): a boundary grid without TRANSLATIONAL stiffness makes the 3x3 "
+    "translation block of rbdispchk singular (scipy raises LinAlgError) - outside the generated domain, the model replies "
+    "raise-singular",
+    "uset tables list their grids by ascending id; mk_net_drms(reorder=False) takes the uset in the order of the bset vector, "
+    "cbcheck in ascending matrix position; an RBE3 on the translations of exactly two boundary grids is rank deficient, so "
+    "rbe3_indep_dof=123456 is passed there",
+    "a printed comparison next to a threshold (refpoint_chk, rbdispchk warning) within 1e-6..1e-3 relative is skipped and counted",
 ]
 PARTIAL = (
-    "partial: eigsh/eigh/solve/fsolve are external kernels entering through stated specifications (residuals measured "
-    "at run time); the printed report is compared at print precision only; Guyan reduction of massless DOF in "
-    "_solve_eig and zero-stiffness trimming in _cbcoordchk are not modelled (not generated)"
+    "partial: eigsh/eigh/solve/fsolve are external kernels entering through stated specifications (residuals measured at run "
+    "time): guyan_preserves_eigenpairs / null_trim_sound take eigenpairs of the reduced pencil as given, rbe and the free-free "
+    "frequencies are compared numerically (model's stiffness-based modes, QZ spectrum); principal inertias / principal radii of "
+    "gyration (eigh in cgmass) and mk_net_drms' ifatm (formrbe3), cgatm (a linear solve), cglf rows and labels, rbmultchk's "
+    "coordinate detection (find_xyz_triples) are not modelled - oracle only; the printed report is by nature comparable at print "
+    "precision only; rbdispchk's 3x3 solve is modelled by the adjugate inverse (numeric tie); "
+    "net_force_is_resultant_local covers rectangular output systems (cylindrical / spherical ones through the numeric stream); "
+    "cbcheck(reorder=False) with the b-set not leading is the open finding F33"
 )
 MANIFEST = {
     "level_text": "Proof (Lean 4, standard axioms) about a polymorphic executable model of the rigid-body and "
@@ -76,13 +111,33 @@ MANIFEST = {
     "stiffness-based modes equal RB and the Schur complement vanishes, and the Schur complement is zero iff such an "
     "RB exists, i.e. grounding shows in exactly the quantity refpoint_chk tests (stiffness_rb_eq_geometry, "
     "grounding_iff); effective mass plus boundary residual equals the rigid-body mass diagonal (effmass_total); cbtf's "
-    "recovered force satisfies the full EOM given the q-set solve specification and K_bq = 0 (cbtf_satisfies_eom). "
+    "recovered force satisfies the full EOM given the q-set solve specification and K_bq = 0 (cbtf_satisfies_eom), and at "
+    "exactly 0 Hz the force is Mbb*a with the statically deflected modal DOF (cbtf_static_limit, cbtfStaticFrc_eq). "
+    "Extension: for M = diag(Mxx, 0) the Guyan-reduced pencil (Kxx + Kxz psi, Mxx) of _solve_eig has exactly the finite "
+    "eigenpairs of (K, M), eigenvectors recovered by vz = psi vx, and the model's guyanK / psiResid / guyanExpand are those "
+    "block expressions (guyan_preserves_eigenpairs, guyanK_eq_blocks, psiResid_eq_blocks, guyanExpand_rows); null columns: "
+    "trimmed eigenpairs extended by zero rows are eigenpairs of the full pencil (null_trim_sound, nullExpand_rows); the "
+    "zero-stiffness trimming of _cbcoordchk returns the true modes on every kept DOF, leaves K*rbs = 0 and the refpoint "
+    "check intact, and is necessary because diag(Koo, 0) is singular (coordchk_trim_sound, trimRef_spec); rbdispchk returns "
+    "exactly the offset of a node, zero error and no warning from rigid-body rows in any non-singular basis, hence for the "
+    "rows rbgeom_uset produces in rectangular, cylindrical and spherical systems (rbdispchk_recovers_coords, "
+    "rbdispchk_recovers_grid, reusing C14's factorisation), and the coordinates _cbcoordchk prints are the offsets from the "
+    "reference grid in the reference grid's local axes (coordchk_coords_local); mk_net_drms' rb.T @ F is the resultant force and moment at the "
+    "reference point, also applied through Mcb[b] to any response vector and for local rectangular output systems "
+    "(net_force_is_resultant, net_drm_is_resultant, net_force_is_resultant_local); rbmultchk's product (rbmult_eq_mul). "
     "Tied to the source by numeric correspondence on generated free structures and direct API streams.",
     "level_note": "Trusted: Lean kernel; propext, Classical.choice, Quot.sound; the Python harness and its structure "
     "generator; specifications of solve/eigsh/eigh/fsolve (measured each run). Floating-point round-off is outside the "
-    "theorems (measured by the 1e-9 correspondence).",
+    "theorems (measured by the 1e-9 correspondence). Only tied / measured, not proved: eigsh's eigenpairs of the reduced pencil "
+    "(checked against the full pencil and its QZ spectrum), rbe, free-free frequencies, principal inertias, the printed report "
+    "(every numeric table parsed and compared with the model and with ground truth at print precision), mk_net_drms ifatm / "
+    "cgatm / weight / height (oracle against rigid-body ground truth), rbmultchk's printed coordinates. Open findings reported "
+    "by the oracle: F33 (cbcheck reorder=False, b-set not leading) and four new families (mk_net_drms reorder with a "
+    "non-involution order, mk_net_drms cgatm rotational rows for ref != origin, mk_net_drms ifatm for a single grid not in "
+    "columns 0..5, cbcheck without modal DOF).",
     "technique": "Lean 4 proof (ring/field identities on explicit 6x6 entries, Mathlib block-matrix algebra, "
-    "permutation matrices) + numeric differential correspondence with pyyeti.cb / n2p on generated structures",
+    "permutation matrices, Schur complements, reuse of C14's 3x3 frame lemmas) + numeric differential correspondence with "
+    "pyyeti.cb / n2p on generated structures, incl. full parsing of cbcheck's report",
 }
 
 
@@ -190,6 +245,67 @@ def gen_structure(rng, ngrids, aniso=False, kinds=(0, 1, 2, 3), L=None):
                 A3=A3, masses=masses, kscale=kscale, L=L)
 
 
+def add_special(st, rng, kind, attach, cskind=0):
+    """append one grid to a generated structure (it becomes a boundary grid):
+      'massless6'    no mass at all, 6-DOF springs to the grids `attach` (boundary grids only, so its Craig-Bampton
+                     mass columns vanish while its stiffness does not: massless DOF with stiffness);
+      'massless-rot' translational mass only, otherwise the same (three massless rotations with stiffness);
+      'pinned'       ball joint: translational mass, springs that act on its translations only and are attached AT the
+                     grid, so its three rotations have neither stiffness nor mass (null columns in both matrices and
+                     zero-stiffness boundary DOF for _cbcoordchk)."""
+    n0 = st["Kb"].shape[0]
+    ng = n0 // 6
+    L, ks = st["L"], st["kscale"]
+    p = rng.uniform(-1, 1, 3) * L
+    cs, fr = gen_cs(rng, cskind, 100 + ng, p, L)
+    n = n0 + 6
+    K = np.zeros((n, n))
+    K[:n0, :n0] = st["Kb"]
+    M = np.zeros((n, n))
+    M[:n0, :n0] = st["Mb"]
+    xyz = np.vstack([st["xyz"], p])
+    for j in attach:
+        B = rng.standard_normal((6, 6))
+        ke = (B @ B.T + 0.5 * np.eye(6)) * ks
+        ke[3:, :] *= L
+        ke[:, 3:] *= L
+        if kind == "pinned":
+            ke[3:, :] = 0
+            ke[:, 3:] = 0
+            q = p.copy()
+        else:
+            q = (p + xyz[j]) / 2 + rng.uniform(-1, 1, 3) * L * 0.3
+        D = np.zeros((6, n))
+        D[:, n0:] = rb6(q, p)
+        D[:, 6 * j:6 * j + 6] = -rb6(q, xyz[j])
+        K += D.T @ ke @ D
+    mass = float(rng.uniform(0.5, 3.0))
+    if kind in ("pinned", "massless-rot"):
+        M[n0:n0 + 3, n0:n0 + 3] = mass * st["A3"]
+    else:
+        mass = 0.0
+    if kind == "pinned":
+        # exact zeros (the assembly above leaves round-off in products with the zero rows of ke)
+        K[n0 + 3:, :] = 0
+        K[:, n0 + 3:] = 0
+    G = np.zeros((n, n))
+    G[:n0, :n0] = st["G"]
+    G[n0:n0 + 3, n0:n0 + 3] = fr
+    G[n0 + 3:, n0 + 3:] = fr
+    Ko, Mo = G.T @ K @ G, G.T @ M @ G
+    if kind == "pinned":
+        Ko[n0 + 3:, :] = 0
+        Ko[:, n0 + 3:] = 0
+    if kind != "massless6":
+        Mo[n0 + 3:, :] = 0
+        Mo[:, n0 + 3:] = 0
+    else:
+        Mo[n0:, :] = 0
+        Mo[:, n0:] = 0
+    return dict(st, xyz=xyz, css=st["css"] + [cs], frames=st["frames"] + [fr], Kb=K, Mb=M, K=Ko, M=Mo, G=G,
+                masses=np.append(st["masses"], mass))
+
+
 def rb_truth(st, ref):
     """rigid-body modes of all grids in output coordinates, unit motion of `ref` along basic axes"""
     RB = np.vstack([rb6(p, ref) for p in st["xyz"]])
@@ -220,6 +336,13 @@ def cb_reduce(st, bgrids, nq):
     Kcb[nb:, :nb] = 0
     Kcb[nb:, nb:] = np.diag(w)
     Mcb[nb:, nb:] = np.eye(nq)
+    for X, Y in ((M, Mcb), (K, Kcb)):
+        # a boundary DOF whose physical row is null and that drives no interior DOF has an exactly null reduced
+        # row/column (products with its zero constraint mode leave no round-off, but be explicit)
+        for kk, dof in enumerate(b):
+            if not X[dof].any() and not X[:, dof].any() and not phic[:, kk].any():
+                Y[kk, :] = 0
+                Y[:, kk] = 0
     return dict(Mcb=Mcb, Kcb=Kcb, T=T, w=w, b=b, o=o, phi=phi, cond=np.linalg.cond(Koo))
 
 
@@ -294,18 +417,56 @@ def gen_spec(rng, tier_big=False):
     return spec
 
 
+SPECIALS = ("massless6", "massless-rot", "pinned")
+
+
+def add_special_to_spec(spec, rng, kind):
+    """one more boundary grid of a special kind (see add_special); keeps everything else of the spec"""
+    spec = dict(spec)
+    spec["special"] = kind
+    spec["special_cs"] = int(rng.choice([0, 0, 1, 2, 3])) if any(k != 0 for k in spec["kinds"]) else 0
+    spec["special_attach"] = int(rng.integers(1, 3))
+    spec["ngrids"] += 1
+    spec["nbg"] += 1
+    nbg = spec["nbg"]
+    spec["special_pos"] = int(rng.integers(0, nbg))
+    # the reference grid is never the ball-jointed one (that must raise, see bref_on_special) ...
+    others = [i for i in range(nbg) if i != spec["special_pos"]]
+    spec["brefgrid"] = int(rng.choice(others)) if (kind == "pinned" or rng.random() < 0.6) else spec["special_pos"]
+    perm = list(range(nbg))
+    if spec["reorder"] and rng.random() < 0.75:
+        perm = [int(x) for x in rng.permutation(nbg)]
+    spec["gridperm"] = perm
+    spec["nq"] = max(1, spec["nq"])
+    return spec
+
+
 def build_case(spec):
     rng = np.random.default_rng(spec["seed"])
-    st = gen_structure(rng, spec["ngrids"], aniso=spec["aniso"], kinds=tuple(spec["kinds"]))
+    special = spec.get("special")
+    nsp = 1 if special else 0
+    st = gen_structure(rng, spec["ngrids"] - nsp, aniso=spec["aniso"], kinds=tuple(spec["kinds"]))
     nbg = spec["nbg"]
-    bgrids = [int(x) for x in rng.choice(spec["ngrids"], nbg, replace=False)]
+    bgrids = [int(x) for x in rng.choice(spec["ngrids"] - nsp, nbg - nsp, replace=False)]
+    if special:
+        rs = np.random.default_rng(list(spec["seed"]) + [17])
+        pool = bgrids if special != "pinned" else list(range(spec["ngrids"] - 1))
+        attach = [int(x) for x in rs.choice(pool, min(len(pool), spec["special_attach"]), replace=False)]
+        st = add_special(st, rs, special, attach, spec.get("special_cs", 0))
+        bgrids.insert(spec["special_pos"], spec["ngrids"] - 1)
     variant = spec["variant"]
-    if variant == "grounded":
-        g = int(rng.integers(0, spec["ngrids"]))
+    if variant in ("grounded", "grounded1"):
+        g = int(rng.integers(0, spec["ngrids"] - nsp))
         B = rng.standard_normal((6, 6))
         kg = (B @ B.T + np.eye(6)) * st["kscale"] * spec.get("ground", 0.05)
         kg[3:, :] *= st["L"]
         kg[:, 3:] *= st["L"]
+        if variant == "grounded1":
+            # grounded through ONE degree of freedom: a scalar spring to ground
+            d = int(rng.integers(0, 6))
+            kd = kg[d, d]
+            kg = np.zeros((6, 6))
+            kg[d, d] = kd
         Gg = st["G"][6 * g:6 * g + 6, 6 * g:6 * g + 6]
         st = dict(st)
         st["K"] = st["K"].copy()
@@ -348,9 +509,12 @@ def build_case(spec):
     else:
         uref_xyz = np.zeros(3)
         uref = (0, 0, 0)
+    # boundary DOF (in [b..., q...] numbering) without stiffness / without mass
+    zk = np.nonzero(~red["Kcb"][:nb, :nb].any(axis=0))[0]
+    zm = np.nonzero(~red["Mcb"][:, :nb].any(axis=0))[0]
     return dict(spec=spec, st=st, bgrids=bgrids, red=red, nb=nb, nq=nq, n=n, pos_b=pos_b, pos_q=pos_q,
                 Min=Min, Kin=Kin, bseto=bseto, bref=bref, ids=ids, uset=uset, uref=uref,
-                uref_xyz=np.asarray(uref_xyz, float), moved=moved)
+                uref_xyz=np.asarray(uref_xyz, float), moved=moved, zero_k=zk, zero_m=zm)
 
 
 def truth_of(case):
@@ -386,7 +550,59 @@ def truth_of(case):
     out["percent"] = out["effmass"] * (100 / np.diag(out["mg"]))
     # boundary residual with the retained modes: total - sum(effmass)
     out["KRB"] = np.abs(K @ RBg).max()
+    # boundary DOF without stiffness (ball joints): _cbcoordchk leaves zero rows there (only when lb > 6)
+    zr = np.array([kk for kk, dof in enumerate(b_phys) if not K[dof].any()], dtype=int) if len(b_phys) > 6 \
+        else np.zeros(0, dtype=int)
+    out["zero_rows"] = zr
+    out["rbs_b"] = out["rbs_b"].copy()
+    out["rbs_b"][zr] = 0.0
+    out["rbnorm"] = bool(rbnorm)
+    # coordinates cbcoordchk derives from the stiffness-based modes
+    xyzb = st2["xyz"][[bgrids[g] for g in perm]]
+    F = st2["frames"][refgrid]
+    out["refframe"] = F
+    out["coords"] = (xyzb - uref_xyz) if rbnorm else (xyzb - st2["xyz"][refgrid]) @ F
+    # mass properties of the physical structure (converted units): total, cg, inertia about the cg in basic axes
+    masses = st["masses"] * mc
+    mt = masses.sum()
+    cg = (masses[:, None] * st2["xyz"]).sum(axis=0) / mt
+    Icg = np.zeros((3, 3))
+    for i, p in enumerate(st2["xyz"]):
+        X = skew(p - cg)
+        Icg += st["Mb"][6 * i + 3:6 * i + 6, 6 * i + 3:6 * i + 6] * mc * lc ** 2 + masses[i] * X.T @ st["A3"] @ X
+    out.update(mt=mt, cg=cg, Icg=Icg, cg_g=cg - uref_xyz,
+               cg_s=(cg - uref_xyz) if rbnorm else F.T @ (cg - st2["xyz"][refgrid]),
+               Icg_s=Icg if rbnorm else F.T @ Icg @ F, iso=not spec["aniso"])
+    out["Kcb"], out["Mcb"], out["nb"] = red2["Kcb"], red2["Mcb"], len(b_phys)
+    out["kbb_b"] = K_b = red2["Kcb"][:len(b_phys), :len(b_phys)]
+    # K_cb in the output order of the b-set (b_phys is the physical numbering; red2 is in bgrids order)
+    order_b = np.concatenate([np.arange(6 * g, 6 * g + 6) for g in perm])
+    out["kbb_out"] = K_b[np.ix_(order_b, order_b)]
     return out
+
+
+def pencil_truth(Kcb, Mcb, nb):
+    """finite eigenvalues of the pencil (K, M) by QZ - no reduction formula involved - and the boundary
+    stiffness / value-check numbers of the pencil after its massless DOF are condensed (Schur complement, numpy)"""
+    import scipy.linalg as la
+
+    n = Kcb.shape[0]
+    keep = np.nonzero(Kcb.any(axis=0) | Mcb.any(axis=0))[0]
+    K1, M1 = Kcb[np.ix_(keep, keep)], Mcb[np.ix_(keep, keep)]
+    ab = la.eigvals(K1, M1, homogeneous_eigvals=True)
+    alpha, beta = ab[0], ab[1]
+    fin = np.abs(beta) > 1e-9 * np.abs(beta).max()
+    w = np.sort(np.abs(np.real(alpha[fin] / beta[fin])))
+    xm = M1.any(axis=0)
+    isb = keep < nb
+    if (~xm).any():
+        zz = np.ix_(~xm, ~xm)
+        Kx = K1[np.ix_(xm, xm)] - K1[np.ix_(xm, ~xm)] @ np.linalg.solve(K1[zz], K1[np.ix_(~xm, xm)])
+    else:
+        Kx = K1
+    bx = isb[xm]
+    return dict(w=w, nred=int(xm.sum()), kbb_max=float(np.abs(Kx[np.ix_(bx, bx)]).max(initial=0.0)),
+                null=[int(i) for i in np.setdiff1d(np.arange(n), keep)], massless=[int(i) for i in np.nonzero(~xm)[0]])
 
 
 def run_cbcheck(case):
@@ -397,7 +613,8 @@ def run_cbcheck(case):
     conv = spec["conv"]
     if isinstance(conv, list):
         conv = tuple(conv)
-    nff = max(6, min(10, case["n"] - 1))
+    nred = case["n"] - len(case.get("zero_m", ()))  # size of the free-free problem after trimming / Guyan reduction
+    nff = max(6, min(10, nred - 1))
     with warnings.catch_warnings():
         warnings.simplefilter("ignore")
         out = cb.cbcheck(f, case["Min"].copy(), case["Kin"].copy(), case["bseto"].copy(), case["bref"].copy(),
@@ -426,23 +643,138 @@ def _block(txt, header, nrows, ncols, skip=0):
     return None
 
 
+def _rows_after(txt, start, ncols, lead=0, stop=None, label=None):
+    """numeric rows following position `start`: every line that has exactly lead+ncols numbers (and, if `label` is given,
+    starts with it) until the first non-matching line after at least one row; returns (array of the last ncols numbers,
+    array of the lead columns, position after the block)"""
+    rows, leads = [], []
+    pos = start
+    for ln in txt[start:].split("\n"):
+        pos += len(ln) + 1
+        body = ln.strip()
+        if stop is not None and stop in ln:
+            break
+        if label is not None:
+            if not body.startswith(label):
+                if rows:
+                    break
+                continue
+            body = body[len(label):]
+        vals = re.findall(_NUM, body)
+        words = re.sub(_NUM, "", body).replace(",", "").strip()
+        if len(vals) == lead + ncols and words == "":
+            leads.append([float(v) for v in vals[:lead]])
+            rows.append([float(v) for v in vals[lead:]])
+        elif rows:
+            break
+    return np.array(rows).reshape(len(rows), ncols), np.array(leads).reshape(len(rows), lead), pos
+
+
+def _dist_table(txt, title):
+    """the three rows Stiffness / Geometry / Eigensolution of a `_wrtdist` table"""
+    i = txt.find(title)
+    out = {}
+    if i < 0:
+        return out
+    for ln in txt[i:i + 900].split("\n")[1:]:
+        for nm, key in (("Stiffness", "s"), ("Geometry", "g"), ("Eigensolution", "e")):
+            if ln.strip().startswith(nm) and key not in out:
+                v = re.findall(_NUM, ln)
+                if len(v) >= 3:
+                    out[key] = np.array([float(t) for t in v[-3:]])
+        if len(out) == 3:
+            break
+    return out
+
+
 def parse_report(txt):
+    """every numeric table of the cbcheck report (print precision), keyed by what it is"""
     rep = {}
     for key in ("stiffness", "geometry", "eigensolution"):
         rep["mass_" + key] = _block(txt, "6x6 mass matrix from %s-based rb modes:" % key, 6, 6)
         rep["ground_" + key] = _block(txt, "Summation of %s-based rb-forces: RB'*K*RB:" % key, 6, 6)
-    i = txt.find("Distance to CG location from relevant reference point:")
-    cg = {}
-    if i >= 0:
-        for ln in txt[i:i + 900].split("\n"):
-            for nm, key in (("Stiffness", "s"), ("Geometry", "g"), ("Eigensolution", "e")):
-                if ln.strip().startswith(nm) and key not in cg:
-                    v = re.findall(_NUM, ln)
-                    if len(v) >= 3:
-                        cg[key] = np.array([float(t) for t in v[-3:]])
-    rep["cg"] = cg
+        # K*RB per DOF: `id dof` + 6 numbers, then `modal i` + 6 numbers
+        i = txt.find("K*RB using %s-based rb modes:" % key)
+        if i >= 0:
+            j = txt.find("Summation of %s-based" % key, i)
+            sect = txt[i:j]
+            rows, mrows = [], []
+            for ln in sect.split("\n")[3:]:
+                v = re.findall(_NUM, ln)
+                if ln.strip().startswith("modal") and len(v) == 7:
+                    mrows.append([float(t) for t in v[1:]])
+                elif len(v) == 8 and not re.search(r"[A-Za-z]", ln):
+                    rows.append([float(t) for t in v[2:]])
+            rep["krb_" + key] = np.array(rows).reshape(-1, 6)
+            rep["krbq_" + key] = np.array(mrows).reshape(-1, 6)
+        i = txt.find("%s-based Inertia Matrix @ CG" % key.capitalize())
+        if i >= 0:
+            I, _, pos = _rows_after(txt, i + 10, 3)
+            rep["inertia_" + key] = I if I.shape == (3, 3) else None
+            j = txt.find("Principal Axis Moments of Inertia:", i)
+            P, _, _ = _rows_after(txt, j + 10, 3)
+            rep["pinertia_" + key] = P[0] if len(P) else None
+    rep["cg"] = _dist_table(txt, "Distance to CG location from relevant reference point:")
+    rep["gyr"] = _dist_table(txt, "Radius of gyration about X, Y, Z axes (from CG):")
+    rep["pgyr"] = _dist_table(txt, "Radius of gyration about principal axes (from CG):")
     rep["refchk"] = "pass" if "Check: PASS" in txt else ("fail" if "Check: FAIL" in txt else "single")
+    # coordinates determined from the stiffness-based modes (rbdispchk)
+    i = txt.find("Stiffness-based coordinates")
+    j = txt.find("Maximum absolute coordinate location error:")
+    if i >= 0 and j >= 0:
+        k = txt.find("------", i)
+        T, lead, _ = _rows_after(txt, k, 4, lead=2, stop="Maximum absolute")
+        rep["coords"], rep["coord_err"] = T[:, :3], T[:, 3]
+        rep["coord_ids"] = [int(x) for x in lead[:, 1]] if len(lead) else []
+        v = re.findall(_NUM, txt[j:j + 90].split(":")[1])
+        rep["coord_maxerr"] = float(v[0]) if v else None
+    rep["coord_warnings"] = txt.count("Warning: deviation from standard pattern")
+    for key, ttl in (("move_t", "RB Translation Movement Check"), ("move_r", "RB Rotation Movement Check")):
+        i = txt.find(ttl)
+        if i >= 0:
+            k = txt.find("---------", i)
+            T, lead, _ = _rows_after(txt, k, 9, lead=1)
+            rep[key] = T
+    # free-free modes
+    i = txt.find("FREE-FREE MODES:")
+    if i >= 0:
+        k = txt.find("----", i)
+        T, lead, _ = _rows_after(txt, k, 1, lead=1)
+        rep["ff"] = T[:, 0]
+    # modal effective mass table
+    i = txt.find("FIXED-BASE MODES w/ Percent Modal Effective Mass:")
+    if i >= 0:
+        k = txt.find("--------  --------------", i)
+        T, lead, _ = _rows_after(txt, k, 6, lead=2, stop="Total Effective Mass")
+        rep["em_percent"], rep["em_frq"] = T, (lead[:, 1] if len(lead) else np.zeros(0))
+        rep["em_modes"] = [int(x) for x in lead[:, 0]] if len(lead) else []
+        j = txt.find("Total Effective Mass:", i)
+        v = re.findall(_NUM, txt[j:].split("\n")[0].split(":")[1]) if j >= 0 else []
+        rep["em_total"] = np.array([float(t) for t in v]) if len(v) == 6 else None
+    rep["no_modes_note"] = "There are no modes for the modal-effective-mass check." in txt
+    # matrix value checks
+    vals = {}
+    for key, lbl in (("mqq_diag", "Maximum value of diag(MQQ)-1.0"), ("mqq_off", "Maximum off-diagonal value of MQQ"),
+                     ("kbb_max", "Maximum value of KBB"), ("kbq_max", "Maximum value of KBQ"),
+                     ("kqq_off", "Maximum off-diagonal value of KQQ"), ("kqq_min", "Minimum diagonal value of KQQ")):
+        i = txt.find(lbl)
+        if i >= 0:
+            v = re.findall(_NUM, txt[i + len(lbl):].split("\n")[0].split("(")[0])
+            if v:
+                vals[key] = float(v[0])
+    rep["vals"] = vals
+    rep["trim_null"] = _pv_line(txt, "Trimming out null columns")
+    rep["trim_massless"] = _pv_line(txt, "There are massless DOF with stiffness.")
     return rep
+
+
+def _pv_line(txt, header):
+    i = txt.find(header)
+    if i < 0:
+        return None
+    j = txt.find("pv = [", i)
+    k = txt.find("]", j)
+    return [int(x) for x in txt[j + 6:k].split()]
 
 
 # ---------------------------------------------------------------------------------------
@@ -613,7 +945,11 @@ def conv_cases(ctx, rng, n):
         lq = int(rng.choice([0, 2, 7]))
         lt = lb + lq
         b = rng.choice(lt, lb, replace=False)
-        if rng.random() < 0.5:
+        if i % 5 == 4:
+            # component-major storage: all boundary translations, then all boundary rotations, then the modal DOF
+            ngr = lb // 6
+            b = np.array([(3 * (kk // 6) + kk % 6) if kk % 6 < 3 else (3 * ngr + 3 * (kk // 6) + kk % 6 - 3) for kk in range(lb)])
+        elif rng.random() < 0.5:
             b = np.sort(b)
         drm = bool(rng.random() < 0.35)
         nr = int(rng.integers(1, 6)) if drm else lt
@@ -621,6 +957,471 @@ def conv_cases(ctx, rng, n):
         M = rng.standard_normal((nr, lt)) * 10 ** rng.uniform(-2, 4)
         cases.append(dict(lt=lt, b=[int(x) for x in b], drm=drm, nr=nr, conv=conv, M=M))
     return cases
+
+
+# ---------------------------------------------------------------------------------------
+# extension streams: _solve_eig, rbdispchk, mk_net_drms, rbmultchk, cbtf at 0 Hz
+
+
+def eig_cases(rng, n):
+    """symmetric (k, m) pairs with chosen null columns (zero in both) and massless DOF with stiffness"""
+    cases = []
+    for i in range(n):
+        nb = 6 * int(rng.choice([1, 2, 3]))
+        nq = int(rng.integers(1, 9))
+        nt = nb + nq
+        kind = ["none", "null", "massless", "both"][i % 4]
+        nnull = int(rng.integers(1, 4)) if kind in ("null", "both") else 0
+        nml = int(rng.integers(1, 5)) if kind in ("massless", "both") else 0
+        while nt - nnull - nml < 8:
+            nq += 1
+            nt += 1
+        A = rng.standard_normal((nt, nt + 3))
+        k = (A @ A.T) * 10 ** rng.uniform(2, 5)
+        B = rng.standard_normal((nt, nt))
+        m = (B @ B.T / nt + np.eye(nt)) * 10 ** rng.uniform(-1, 1)
+        sel = rng.permutation(nt)
+        z0, zm = np.sort(sel[:nnull]), np.sort(sel[nnull:nnull + nml])
+        k[z0, :] = 0
+        k[:, z0] = 0
+        m[z0, :] = 0
+        m[:, z0] = 0
+        m[zm, :] = 0
+        m[:, zm] = 0
+        if rng.random() < 0.3 and nml:
+            # a massless DOF whose mass column holds only a negative zero is still massless
+            m[zm[0], zm[0]] = -0.0
+        bset = np.sort(rng.choice(nt, nb, replace=False))
+        nred = nt - nnull - nml
+        cases.append(dict(kind=kind, k=k, m=m, bset=[int(x) for x in bset], null=[int(x) for x in z0],
+                          massless=[int(x) for x in zm], nff=int(rng.integers(6, min(10, nred - 1) + 1))))
+    return cases
+
+
+def run_solve_eig(c):
+    from pyyeti import cb
+
+    f = io.StringIO()
+    with warnings.catch_warnings():
+        warnings.simplefilter("ignore")
+        ff = cb._solve_eig(f, c["k"].copy(), c["m"].copy(), np.array(c["bset"]), c["nff"])
+    return ff, f.getvalue()
+
+
+def oracle_solve_eig(c):
+    """model-free: every returned pair is an eigenpair of the FULL pencil, with eigenvalues from its finite spectrum"""
+    out = []
+    inp = {"kind": "solve_eig", "k": np.asarray(c["k"]).tolist(), "m": np.asarray(c["m"]).tolist(), "bset": c["bset"], "nff": c["nff"]}
+    k, m = np.asarray(c["k"], float), np.asarray(c["m"], float)
+    cc = dict(c, k=k, m=m)
+    fam = "solve_eig-" + ("massless" if (~m.any(axis=0) & k.any(axis=0)).any() else "") + \
+        ("null" if (~m.any(axis=0) & ~k.any(axis=0)).any() else "") + "-eigenpairs"
+    try:
+        ff, txt = run_solve_eig(cc)
+    except Exception as e:  # noqa: BLE001
+        _fail(out, fam + "-raises-" + type(e).__name__, "_solve_eig raises on a symmetric pencil", inp, repr(e)[:200], "eigenpairs")
+        return out
+    pt = pencil_truth(k, m, 0)
+    w, v = ff.w, ff.v
+    sc = max(np.abs(k).max() * np.abs(v).max(), 1e-300)
+    res = np.abs(k @ v - (m @ v) * w).max() / sc
+    if v.shape != (k.shape[0], len(w)) or not res <= 1e-7:
+        _fail(out, fam, "K v = w M v does not hold on the full matrices for the back-expanded eigenvectors", inp,
+              {"residual": float(res), "shape": list(v.shape)}, "<= 1e-7 relative")
+    want = pt["w"]
+    order = np.argsort(np.abs(want - 1.0))[:len(w)]
+    if len(want) != pt["nred"] or not np.allclose(np.sort(w), np.sort(want[order]), rtol=1e-7, atol=1e-9 * np.abs(want).max()):
+        _fail(out, fam.replace("eigenpairs", "eigenvalues"), "eigenvalues are not the finite eigenvalues of (K, M) closest to the shift", inp,
+              np.sort(w).tolist(), np.sort(want[order]).tolist())
+    if pt["null"] and np.abs(v[pt["null"]]).max() != 0:
+        _fail(out, fam, "rows of the eigenvectors on null DOF are not zero", inp, float(np.abs(v[pt["null"]]).max()), 0.0)
+    if ff.k.shape[0] != pt["nred"]:
+        _fail(out, fam, "size of the reduced problem", inp, ff.k.shape[0], pt["nred"])
+    return out
+
+
+def rbdisp_cases(rng, n):
+    cases = []
+    for i in range(n):
+        nn = int(rng.integers(1, 6))
+        L = 10 ** rng.uniform(-1, 2)
+        tol = [1e-4, 1e-4, 1e-3, 1e-5][int(rng.integers(0, 4))]
+        rows, ds, kinds = [], [], []
+        for j in range(nn):
+            basis = str(rng.choice(["identity", "rotation", "general"]))
+            if basis == "identity":
+                F = np.eye(3)
+            elif basis == "rotation":
+                F = rand_rot(rng)
+            else:
+                F = rand_rot(rng) @ np.diag(rng.uniform(0.5, 2.0, 3)) @ rand_rot(rng)
+            d = rng.uniform(-1, 1, 3) * L
+            if rng.random() < 0.1:
+                d[:] = 0.0
+            blk = np.hstack([F, -F @ skew(d)])
+            pk = ["exact", "exact", "small", "large"][int(rng.integers(0, 4))]
+            if pk != "exact":
+                mag = 10 ** (rng.uniform(-8, -5.5) if pk == "small" else rng.uniform(-2.5, -0.5)) * L
+                E = rng.standard_normal((3, 3))
+                blk[:, 3:] += F @ (E / np.abs(E).max() * mag)
+            rows.append(blk)
+            ds.append(d)
+            kinds.append(basis + "-" + pk)
+        cases.append(dict(rbdisp=np.vstack(rows), d=np.array(ds), tol=tol, kinds=kinds, L=L,
+                          grids=[100 + 7 * j for j in range(nn)] if rng.random() < 0.5 else None))
+    return cases
+
+
+def run_rbdisp(c):
+    from pyyeti import cb
+
+    f = io.StringIO()
+    coords, errs = cb.rbdispchk(f, np.asarray(c["rbdisp"], float), grids=c["grids"], verbose=True, tol=c["tol"])
+    return coords, errs, f.getvalue()
+
+
+def oracle_rbdisp(c):
+    out = []
+    rb = np.asarray(c["rbdisp"], float)
+    inp = {"kind": "rbdisp", "rbdisp": rb.tolist(), "d": np.asarray(c["d"]).tolist(), "tol": c["tol"], "kinds": c["kinds"],
+           "grids": c["grids"], "L": c["L"]}
+    try:
+        coords, errs, txt = run_rbdisp(dict(c, rbdisp=rb))
+    except Exception as e:  # noqa: BLE001
+        _fail(out, "rbdispchk-raises-" + type(e).__name__, "rbdispchk raises on non-singular translation blocks", inp, repr(e)[:200], "coordinates")
+        return out
+    L = c["L"]
+    d = np.asarray(c["d"], float)
+    nwarn = txt.count("Warning: deviation from standard pattern")
+    exp_warn = 0
+    for j, kd in enumerate(c["kinds"]):
+        basis, pk = kd.rsplit("-", 1)
+        # the deviation from the pattern, directly from the rows (in the reference axes)
+        R = np.linalg.solve(rb[3 * j:3 * j + 3, :3], rb[3 * j:3 * j + 3, 3:])
+        dev = max(np.abs(np.diag(R)).max(), abs(R[1, 2] + R[2, 1]), abs(R[2, 0] + R[0, 2]), abs(R[0, 1] + R[1, 0]))
+        if pk == "exact":
+            if not np.all(np.abs(coords[j] - d[j]) <= 1e-9 * max(L, 1e-30)) or not errs[j] <= 1e-9 * L:
+                _fail(out, "rbdispchk-coords-" + basis, "rbdispchk does not recover the offset of a node from exact rigid-body rows", inp,
+                      {"coords": coords[j].tolist(), "err": float(errs[j])}, {"coords": d[j].tolist(), "err": 0.0})
+        elif not abs(errs[j] - dev) <= 1e-6 * dev + 1e-12 * L:
+            _fail(out, "rbdispchk-error-" + basis, "reported deviation from the rigid-body pattern", inp, float(errs[j]), float(dev))
+        thr = np.abs(coords[j]).max() * c["tol"]
+        if exp_warn is None or abs(dev - thr) <= 0.02 * thr + 1e-13 * L:
+            exp_warn = None  # on the threshold (or both round-off): not decidable from outside
+        elif dev > thr:
+            exp_warn += 1
+    if exp_warn is not None and nwarn != exp_warn:
+        _fail(out, "rbdispchk-warning", "number of pattern warnings (deviation > tol * max |coordinate|)", inp, nwarn, exp_warn)
+    return out
+
+
+def net_cases(rng, n):
+    cases = []
+    tries = 0
+    while len(cases) < n and tries < 5 * n:
+        tries += 1
+        spec = gen_spec(rng)
+        spec.update(variant="valid", reorder=True, rbnorm=None, uref="origin", conv=None)
+        spec["gridperm"] = [int(x) for x in rng.permutation(spec["nbg"])]
+        opt = dict(conv=[None, None, "m2e", "e2m", [float(10 ** rng.uniform(-1, 1.5)), float(10 ** rng.uniform(-2, 2))]][int(rng.integers(0, 5))],
+                   sub=bool(rng.random() < 0.3 and spec["nbg"] > 1),
+                   ref=str(rng.choice(["vec", "id", "origin"])),
+                   sccoord=bool(rng.random() < 0.3), seed=[int(x) for x in rng.integers(0, 2 ** 31, 2)])
+        cases.append(dict(spec=spec, opt=opt))
+    return cases
+
+
+def build_net(c):
+    """inputs of mk_net_drms for a generated structure: the b-set vector in any order, the uset in THAT order"""
+    spec, opt = c["spec"], c["opt"]
+    case = build_case(spec)
+    rng = np.random.default_rng(opt["seed"])
+    perm = spec["gridperm"]
+    bgr = [case["bgrids"][g] for g in perm]
+    ids = [10 * (i + 1) for i in range(len(perm))]  # a uset table lists its grids by ascending id
+    uset = make_uset(case["st"], bgr, ids)
+    nbg = spec["nbg"]
+    if opt["sub"]:
+        keepg = np.sort(rng.choice(nbg, int(rng.integers(1, nbg)), replace=False))
+        bsub = np.concatenate([np.arange(6 * g, 6 * g + 6) for g in keepg])
+    else:
+        keepg, bsub = np.arange(nbg), None
+    if opt["ref"] == "id":
+        gi = int(rng.choice(keepg))  # (a reference grid outside `bsubset` is a KeyError in rbgeom_uset)
+        ref, ref_xyz = ids[gi], case["st"]["xyz"][bgr[gi]]
+    elif opt["ref"] == "vec":
+        ref_xyz = rng.uniform(-1, 1, 3) * case["st"]["L"]
+        ref = [float(x) for x in ref_xyz]
+    else:
+        ref, ref_xyz = [0, 0, 0], np.zeros(3)
+    sc = rand_rot(rng) if opt["sccoord"] else None
+    return dict(case=case, uset=uset, bset=case["bseto"], bsub=bsub, keepg=keepg, ref=ref, ref_xyz=np.asarray(ref_xyz, float),
+                sccoord=sc, bgr=bgr, ids=ids)
+
+
+def run_net(nb_, conv):
+    from pyyeti import cb
+
+    case = nb_["case"]
+    if isinstance(conv, list):
+        conv = tuple(conv)
+    with warnings.catch_warnings(record=True) as wl:
+        warnings.simplefilter("always")
+        # an RBE3 on the translations of two grids cannot see the rotation about the line through them
+        indep = 123456 if len(nb_["keepg"]) == 2 else None
+        out = cb.mk_net_drms(case["Min"].copy(), case["Kin"].copy(), nb_["bset"].copy(), bsubset=nb_["bsub"], uset=nb_["uset"],
+                             ref=nb_["ref"], sccoord=nb_["sccoord"], conv=conv, reorder=False, g=9.80665 / 0.0254,
+                             rbe3_indep_dof=indep)
+    grounding = any("grounding forces" in str(w.message) for w in wl)
+    return out, grounding
+
+
+def net_request(nb_, conv, mat):
+    case = nb_["case"]
+    cf = conv_factors(conv)
+    n, nb = case["n"], case["nb"]
+    sub = nb_["bsub"] if nb_["bsub"] is not None else np.arange(nb)
+    parts = ["netdrm", str(nb), str(len(sub)), str(n), ("1 " + bits(cf)) if cf else "0", ints(nb_["bset"]), ints(sub),
+             bits(nb_["uset"].loc[:, "x":"z"].values), bits(nb_["ref_xyz"]), bits(mat)]
+    return " ".join(parts)
+
+
+def oracle_net(c):
+    """mk_net_drms against the generator's ground truth: net force = resultant at the reference point of the boundary
+    forces, rigid-body acceleration gives the rigid mass / unit interface acceleration / the cg motion, weight, height,
+    unit conversion keeps the physics"""
+    out = []
+    inp = {"kind": "netdrm", "spec": c["spec"], "opt": c["opt"]}
+    nb_ = build_net(c)
+    case, opt = nb_["case"], c["opt"]
+    st = case["st"]
+    tags = [t for t, on in (("conv", opt["conv"] is not None), ("bsubset", opt["sub"]), ("sccoord", opt["sccoord"])) if on]
+    fam = "mk_net_drms-" + ("-".join(tags) if tags else "plain")
+    try:
+        res, grounding = run_net(nb_, opt["conv"])
+    except Exception as e:  # noqa: BLE001
+        _fail(out, fam + "-raises-" + type(e).__name__, "mk_net_drms raises on a well-formed model", inp, repr(e)[:200], "a result")
+        return out
+    if grounding and c["spec"]["nbg"] > 1:
+        # (with one boundary grid Kbb is round-off only and the relative test of the routine has nothing to compare with)
+        _fail(out, fam + "-grounding-warning", "mk_net_drms warns about grounding forces on a free model with exact geometry", inp,
+              "RuntimeWarning", "no warning")
+    n, nb = case["n"], case["nb"]
+    bset = np.asarray(nb_["bset"])
+    g0 = 9.80665 / 0.0254
+    cf = conv_factors(opt["conv"])
+    lc, mc = cf if cf else (1.0, 1.0)
+    # physical truth in s/c units: boundary rows of T (identity), generator geometry
+    RB = np.vstack([(st["G"][6 * g:6 * g + 6, 6 * g:6 * g + 6]).T @ rb6(st["xyz"][g], nb_["ref_xyz"]) for g in nb_["bgr"]])  # nb x 6
+    sub = nb_["bsub"] if nb_["bsub"] is not None else np.arange(nb)
+    M, K = case["Min"], case["Kin"]
+    rng = np.random.default_rng(opt["seed"] + [5])
+    acc = rng.standard_normal(n)
+    Fb = M[bset[sub]] @ acc  # boundary forces on the interface subset for this acceleration
+    want = RB[sub].T @ Fb
+    T6 = np.eye(6)
+    if nb_["sccoord"] is not None:
+        T6 = np.zeros((6, 6))
+        T6[:3, :3] = nb_["sccoord"]
+        T6[3:, 3:] = nb_["sccoord"]
+        T6 = T6  # Tsc2lv = Tlv2sc.T with Tlv2sc = blockdiag(sccoord): lv = sccoord.T @ sc
+        T6 = np.block([[nb_["sccoord"].T, np.zeros((3, 3))], [np.zeros((3, 3)), nb_["sccoord"].T]])
+    fsc = max(np.abs(want).max(), 1e-300)
+    # s/c matrix: with conv it takes l/v-unit accelerations (DRM conversion), forces stay in s/c units
+    Cd = np.ones(n)
+    pos = {int(x): kk for kk, x in enumerate(bset)}
+    for i in range(n):
+        Cd[i] = ((1 / lc) if pos[i] % 6 < 3 else 1.0) if i in pos else 1 / (math.sqrt(mc) * lc)
+    acc_lv = acc / Cd
+    got = res.ifltma_sc @ (acc_lv if cf else acc)
+    if not _close(got, want, 1e-9, fsc)[0]:
+        _fail(out, fam + "-net-force", "ifltma_sc @ a is not the resultant at `ref` of the boundary forces Mcb[b] @ a", inp,
+              got.tolist(), want.tolist())
+    Dn = np.array([mc * lc] * 3 + [mc * lc * lc] * 3)
+    got = res.ifltma_lv @ acc_lv
+    if not _close(got, T6 @ (Dn * want), 1e-9, np.abs(Dn * want).max())[0]:
+        _fail(out, fam + "-net-force-lv", "ifltma_lv @ a (l/v units and axes) is not the converted, rotated resultant", inp,
+              got.tolist(), (T6 @ (Dn * want)).tolist())
+    if nb_["bsub"] is None:
+        ksc = max(np.abs(K).max(), 1e-300) * max(1.0, np.abs(RB).max())
+        if np.abs(res.ifltmd_sc).max() > 1e-8 * ksc or np.abs(res.ifltmd_lv).max() > 1e-8 * ksc * mc * lc * lc * max(1.0, 1 / lc):
+            _fail(out, fam + "-ifltmd-nonzero", "displacement-dependent net force of a free model is not zero", inp,
+                  float(np.abs(res.ifltmd_sc).max()), 0.0)
+        # rigid-body acceleration about `ref`: net force = rigid mass, net interface acceleration = identity, cg motion
+        a_rb = np.zeros((n, 6))
+        a_rb[bset] = RB
+        mass6 = RB.T @ M[np.ix_(bset, bset)] @ RB
+        got = res.ifltma_sc @ (a_rb / Cd[:, None] if cf else a_rb)
+        if not _close(got, mass6, 1e-9)[0]:
+            _fail(out, fam + "-rigid-mass", "ifltma_sc applied to rigid-body acceleration is not the 6x6 rigid mass about `ref`", inp,
+                  got.tolist(), mass6.tolist())
+        a_rb_lv = a_rb / Cd[:, None] / (np.array([lc] * 3 + [1.0] * 3) if cf else 1.0)
+        # a_rb_lv: unit rigid accelerations in l/v units (1 length_lv/s^2, 1 rad/s^2) about the converted reference
+        RBlv = a_rb_lv[bset]
+        got = res.ifatm_sc @ a_rb_lv
+        wantI = np.diag([1 / g0] * 3 + [1.0] * 3)
+        if not _close(got, wantI, 1e-8, 1.0)[0]:
+            # F-new: with a single boundary grid the RBE3 columns are written to columns 0..5, whatever `bset` says
+            single_off = nb == 6 and not np.array_equal(np.sort(bset), np.arange(6))
+            _fail(out, "mk_net_drms-ifatm-single-grid-bset-not-leading" if single_off else fam + "-ifatm",
+                  "net interface acceleration of a unit rigid-body acceleration is not the unit (in g)", inp,
+                  got.tolist(), wantI.tolist())
+        masses = st["masses"]
+        if not c["spec"]["aniso"]:
+            cg = (masses[:, None] * st["xyz"]).sum(axis=0) / masses.sum()
+            dcg = (cg - nb_["ref_xyz"]) * lc
+            if not _close(res.cg_sc, dcg, 1e-8, max(np.abs(dcg).max(), 1e-3 * st["L"] * lc))[0]:
+                _fail(out, fam + "-cg", "cg_sc is not the mass-weighted centroid relative to `ref`", inp, np.asarray(res.cg_sc).tolist(), dcg.tolist())
+            wantcg = rb6(dcg, np.zeros(3))
+            wantcg[:3] /= g0
+            got = res.cgatm_sc @ a_rb_lv
+            if not _close(got[:3], wantcg[:3], 1e-8, max(1.0 / g0, np.abs(wantcg[:3]).max()))[0]:
+                _fail(out, fam + "-cgatm", "net cg acceleration of a unit rigid-body acceleration is not the motion of the cg", inp,
+                      got.tolist(), wantcg.tolist())
+            elif not _close(got[3:], wantcg[3:], 1e-8, 1.0)[0]:
+                # F-new: the rigid-body modes "relative to the cg" are formed about the point whose BASIC coordinates are the
+                # cg offset from `ref`; that is the cg only when `ref` is the basic origin
+                f2 = "mk_net_drms-cgatm-rotation-rows-ref-not-origin" if np.any(nb_["ref_xyz"] != 0) else fam + "-cgatm-rotation"
+                _fail(out, f2, "rotational rows of cgatm_sc applied to a unit rigid-body acceleration are not [0 I]: the moments are "
+                      "not taken about the cg", inp, got[3:].tolist(), wantcg[3:].tolist())
+            wl, hl = masses.sum() * mc * g0, np.abs(dcg).max()
+            if abs(res.weight_lv - wl) > 1e-9 * wl or abs(res.height_lv - hl) > 1e-8 * max(hl, 1e-3 * st["L"] * lc) or \
+                    abs(res.weight_sc - wl / (mc * lc)) > 1e-9 * wl / (mc * lc) or abs(res.height_sc - hl / lc) > 1e-8 * max(hl, 1e-3 * st["L"] * lc) / lc:
+                _fail(out, fam + "-weight-height", "weight / cg height", inp,
+                      [float(res.weight_sc), float(res.height_sc), float(res.weight_lv), float(res.height_lv)],
+                      [wl / (mc * lc), hl / lc, wl, hl])
+    return out
+
+
+def rbmult_cases(rng, n):
+    cases = []
+    for i in range(n):
+        nb = 6 * int(rng.integers(1, 4))
+        nq = int(rng.choice([0, 0, 3, 7]))
+        mode = ["first", "last", "vector", "full"][i % 4]
+        nr = int(rng.integers(1, 9))
+        nc = nb + nq
+        drm = rng.standard_normal((nr, nc)) * 10 ** rng.uniform(-2, 3)
+        if rng.random() < 0.3 and nr > 1:
+            drm[int(rng.integers(0, nr))] = 0.0  # a NULL row
+        rb = rng.standard_normal((nc if mode == "full" else nb, 6))
+        bset = sorted(int(x) for x in rng.choice(nc, nb, replace=False)) if mode == "vector" else mode
+        cases.append(dict(mode=mode, drm=drm, rb=rb, bset=bset, nb=nb, nc=nc))
+    return cases
+
+
+def run_rbmult(c):
+    from pyyeti import cb
+
+    f = io.StringIO()
+    bset = np.array(c["bset"]) if isinstance(c["bset"], list) else ("first" if c["bset"] == "full" else c["bset"])
+    with warnings.catch_warnings():
+        warnings.simplefilter("ignore")
+        return cb.rbmultchk(f, np.asarray(c["drm"], float), "DRM", np.asarray(c["rb"], float), bset=bset), f.getvalue()
+
+
+def oracle_rbmult(seed):
+    """the docstring use of rbmultchk: a displacement recovery matrix built from point locations, times the rigid-body
+    modes of the boundary grid, is the rigid-body motion of the points; the printed extreme coordinates are theirs"""
+    out = []
+    rng = np.random.default_rng(seed)
+    npts = int(rng.integers(1, 6))
+    L = 10 ** rng.uniform(0, 2)
+    pts = np.round(rng.uniform(-1, 1, (npts, 3)) * L, 3)
+    bpt = np.round(rng.uniform(-1, 1, 3) * L, 3)
+    nq = int(rng.choice([0, 4]))
+    atm = np.vstack([rb6(p, bpt) for p in pts])  # motion of the points for unit motion of the boundary grid
+    where = str(rng.choice(["first", "last"]))
+    Q = rng.standard_normal((atm.shape[0], nq))
+    drm = np.hstack([atm, Q]) if where == "first" else np.hstack([Q, atm])
+    ref = np.round(rng.uniform(-1, 1, 3) * L, 3)
+    rb = rb6(bpt, ref)  # rigid-body modes of the boundary grid about `ref`
+    inp = {"kind": "rbmult", "seed": [int(x) for x in np.atleast_1d(seed)]}
+    try:
+        got, txt = run_rbmult(dict(drm=drm, rb=rb, bset=where))
+    except Exception as e:  # noqa: BLE001
+        _fail(out, "rbmultchk-raises-" + type(e).__name__, "rbmultchk raises on a displacement recovery matrix", inp, repr(e)[:200], "drm @ rb")
+        return out
+    want = np.vstack([rb6(p, ref) for p in pts])
+    if not _close(got, want, 1e-12, max(1.0, np.abs(want).max()))[0]:
+        _fail(out, "rbmultchk-b" + where, "DRM times rigid-body modes is not the rigid-body motion of the recovered points", inp,
+              got.tolist(), want.tolist())
+    i = txt.find("Minimums:")
+    j = txt.find("Maximums:")
+    rel = pts - ref
+    if i < 0 or j < 0:
+        _fail(out, "rbmultchk-coordinates", "extreme coordinate table missing for rows that follow the rigid-body pattern", inp, None, "table")
+    else:
+        mn = np.array([float(t) for t in re.findall(_NUM, txt[i:].split("\n")[0].split(":")[1])])
+        mx = np.array([float(t) for t in re.findall(_NUM, txt[j:].split("\n")[0].split(":")[1])])
+        if not (np.all(np.abs(mn - rel.min(axis=0)) <= 0.6e-4 + 1e-9 * L) and np.all(np.abs(mx - rel.max(axis=0)) <= 0.6e-4 + 1e-9 * L)):
+            _fail(out, "rbmultchk-coordinates", "printed extreme coordinates are not those of the recovered points (relative to the "
+                  "reference of the rigid-body modes)", inp, [mn.tolist(), mx.tolist()], [rel.min(axis=0).tolist(), rel.max(axis=0).tolist()])
+    return out
+
+
+def cbtf0_cases(rng, n):
+    cases = []
+    for i in range(n):
+        nb = int(rng.choice([1, 3, 6, 12]))
+        nq = int(rng.integers(1, 8))
+        nt = nb + nq
+        A = rng.standard_normal((nt, nt))
+        M = A @ A.T / nt + np.eye(nt)
+        K = np.zeros((nt, nt))
+        Bm = np.zeros((nt, nt))
+        layout = ["first", "last", "mixed"][i % 3]
+        pos_b = np.arange(nb) if layout == "first" else (np.arange(nq, nt) if layout == "last" else np.sort(rng.choice(nt, nb, replace=False)))
+        pos_q = np.setdiff1d(np.arange(nt), pos_b)
+        Cq = rng.standard_normal((nq, nq))
+        K[np.ix_(pos_q, pos_q)] = (Cq @ Cq.T + nq * np.eye(nq)) * 10 ** rng.uniform(1, 4)
+        Cb = rng.standard_normal((nb, nb))
+        K[np.ix_(pos_b, pos_b)] = Cb @ Cb.T * 10 ** rng.uniform(1, 4)
+        D = rng.standard_normal((nt, nt))
+        Bm = D @ D.T * 0.05
+        bset = pos_b.copy()
+        if rng.random() < 0.4:
+            bset = rng.permutation(bset)
+        a = rng.standard_normal(nb)
+        cases.append(dict(M=M, B=Bm, K=K, bset=[int(x) for x in bset], a=a, layout=layout,
+                          freq=[0.0] if rng.random() < 0.5 else [0.0, float(rng.uniform(0.5, 5))]))
+    return cases
+
+
+def run_cbtf0(c):
+    from pyyeti import cb
+
+    with warnings.catch_warnings():
+        warnings.simplefilter("ignore")
+        return cb.cbtf(np.asarray(c["M"], float), np.asarray(c["B"], float), np.asarray(c["K"], float), np.asarray(c["a"], float),
+                       np.asarray(c["freq"], float), np.array(c["bset"]))
+
+
+def oracle_cbtf0(c):
+    out = []
+    M, K = np.asarray(c["M"], float), np.asarray(c["K"], float)
+    bset = np.array(c["bset"])
+    a = np.asarray(c["a"], float)
+    inp = {"kind": "cbtf0", "M": M.tolist(), "B": np.asarray(c["B"]).tolist(), "K": K.tolist(), "bset": c["bset"], "a": a.tolist(),
+           "freq": c["freq"], "layout": c["layout"]}
+    try:
+        tf = run_cbtf0(c)
+    except Exception as e:  # noqa: BLE001
+        _fail(out, "cbtf-static-raises-" + type(e).__name__, "cbtf raises at 0 Hz", inp, repr(e)[:200], "a result")
+        return out
+    qset = np.setdiff1d(np.arange(M.shape[0]), bset)
+    frc = M[np.ix_(bset, bset)] @ a
+    dq = -np.linalg.solve(K[np.ix_(qset, qset)], M[np.ix_(qset, bset)] @ a)
+    imag = max(np.abs(np.imag(x)).max() for x in (tf.frc[:, 0], tf.d[:, 0], tf.a[:, 0]))
+    ok = (_close(np.real(tf.frc[:, 0]), frc, 1e-9)[0] and _close(np.real(tf.d[qset, 0]), dq, 1e-8)[0]
+          and np.abs(tf.d[bset, 0]).max() == 0 and imag <= 1e-12 * max(np.abs(frc).max(), 1e-300)
+          and np.abs(tf.v[:, 0]).max() == 0 and np.abs(tf.a[qset, 0]).max() <= 1e-12 * max(np.abs(a).max(), 1e-300)
+          and _close(np.real(tf.a[bset, 0]), a, 1e-14)[0])
+    if not ok:
+        _fail(out, "cbtf-static-limit-b" + c["layout"], "at 0 Hz the force is not Mbb a with the statically deflected modal DOF "
+              "(d_q = -Kqq^-1 Mqb a, zero velocity, zero boundary displacement)", inp,
+              {"frc": np.real(tf.frc[:, 0]).tolist(), "dq": np.real(tf.d[qset, 0]).tolist()}, {"frc": frc.tolist(), "dq": dq.tolist()})
+    return out
 
 
 # ---------------------------------------------------------------------------------------
@@ -641,14 +1442,25 @@ def cbcheck_specs(ctx, rng, n):
         tries += 1
         spec = gen_spec(rng, ctx.thorough)
         r = rng.random()
-        if r < 0.15:
+        if r < 0.11:
             spec["variant"] = "grounded"
             spec["ground"] = float(10 ** rng.uniform(-2, 0))
-        elif r < 0.3 and spec["nbg"] > 1:
+        elif r < 0.19:
+            spec["variant"] = "grounded1"
+            spec["ground"] = float(10 ** rng.uniform(-2, 0))
+        elif r < 0.32 and spec["nbg"] > 1:
             spec["variant"] = "perturbed"
             spec["shift"] = float(10 ** rng.uniform(-1.5, 0))
+        if spec["variant"] != "perturbed" and spec["nbg"] < 4 and rng.random() < 0.4:
+            spec = add_special_to_spec(spec, rng, SPECIALS[len(specs) % 3])
+            if spec["special"] == "pinned" and rng.random() < 0.15:
+                spec["brefgrid"] = spec["special_pos"]  # a reference DOF without stiffness: must raise RuntimeError
         specs.append(spec)
     return specs
+
+
+def _bref_on_pinned(spec):
+    return spec.get("special") == "pinned" and spec["brefgrid"] == spec["special_pos"]
 
 
 def cbcheck_request(case):
@@ -670,19 +1482,31 @@ def cbcheck_request(case):
 
 def parse_cbcheck_reply(rep, n, nb):
     t = rep.split(" ")
+    if t[0] in ("raise-refpoint", "raise-singular"):
+        return {"chk": t[0]}
     if t[0] not in ("pass", "fail", "single"):
         raise Infra("C06 driver: unexpected cbcheck reply %r" % rep[:80])
-    v = unbits(t[1:])
     nq = n - nb
+    ng = nb // 6
+    shapes = (("m", (n, n)), ("k", (n, n)), ("rbs", (n, 6)), ("rbg", (nb, 6)), ("ms", (6, 6)),
+              ("mg", (6, 6)), ("effmass", (nq, 6)), ("percent", (nq, 6)), ("frq", (nq,)),
+              ("resid", (6, 6)), ("ds", (3,)), ("dg", (3,)), ("gyrs", (3,)), ("gyrg", (3,)), ("Is", (3, 3)),
+              ("Ig", (3, 3)), ("rbfs", (n, 6)), ("Ss", (6, 6)), ("rbfg", (nb, 6)), ("Sg", (6, 6)),
+              ("rsss", (ng, 3)), ("rssg", (ng, 3)), ("rots", (ng, 3)), ("rotg", (ng, 3)), ("coords", (ng, 3)),
+              ("errs", (ng,)), ("vals", (6,)))
+    nfl = sum(int(np.prod(sh)) for _, sh in shapes)
+    v = unbits(t[1:1 + nfl])
     out, k = {"chk": t[0]}, 0
-    for name, shape in (("m", (n, n)), ("k", (n, n)), ("rbs", (n, 6)), ("rbg", (nb, 6)), ("ms", (6, 6)),
-                        ("mg", (6, 6)), ("effmass", (nq, 6)), ("percent", (nq, 6)), ("frq", (nq,)),
-                        ("resid", (6, 6))):
+    for name, shape in shapes:
         sz = int(np.prod(shape))
         out[name] = v[k:k + sz].reshape(shape)
         k += sz
-    if k != len(v):
-        raise Infra("C06 driver: cbcheck reply has %d floats, expected %d" % (len(v), k))
+    tail = [int(x) for x in t[1 + nfl:]]
+    if len(tail) < 3 or len(tail) != 3 + tail[1] + tail[2]:
+        raise Infra("C06 driver: cbcheck reply has a malformed integer tail %r" % tail[:8])
+    out["ntrim"], nnull, nml = tail[:3]
+    out["null"] = tail[3:3 + nnull]
+    out["massless"] = tail[3 + nnull:]
     return out
 
 
@@ -698,7 +1522,159 @@ def spec_branches(spec):
         br.append("mass:unequal-translational")
     if any(k in (2, 3) for k in spec["kinds"]):
         br.append("cs:curvilinear-possible")
+    if spec.get("special"):
+        br.append("special:" + spec["special"])
+        if spec["brefgrid"] == spec["special_pos"]:
+            br.append("special:is-reference-grid")
     return br
+
+
+def _tab_close(ctx, stream, inp, what, printed, want, half, rel=1e-8, scale=None):
+    """a printed table against its values: |printed - want| <= half (half a unit of the last printed digit, with
+    head-room) + rel * scale"""
+    if printed is None:
+        ctx.disagree(stream, inp, "%s not found in the report" % what, "a table of shape %s" % (np.shape(want),))
+        return False
+    printed, want = np.asarray(printed, float), np.asarray(want, float)
+    if printed.shape != want.shape:
+        ctx.disagree(stream, inp, {"what": what, "shape": list(printed.shape)}, {"shape": list(want.shape)})
+        return False
+    if want.size == 0:
+        return True
+    fin = np.isfinite(want)
+    sc = scale if scale is not None else (np.abs(want[fin]).max() if fin.any() else 1.0)
+    bad = fin & ~(np.abs(printed - np.where(fin, want, 0.0)) <= half + rel * sc)
+    if bad.any():
+        j = int(np.argmax(bad.ravel()))
+        ctx.disagree(stream, inp, {"what": what, "index": j, "printed": float(printed.ravel()[j])},
+                     {"value": float(want.ravel()[j])})
+        return False
+    return True
+
+
+def compare_cbcheck(ctx, cmp, case, out, txt, mo):
+    """everything cbcheck returns and prints against the Lean model's values (numeric, print precision for the report)"""
+    spec = case["spec"]
+    inp = {"spec": spec}
+    rp = parse_report(txt)
+    n, nb, nq = case["n"], case["nb"], case["nq"]
+    ng = nb // 6
+    cmp("cbcheck-m", "m", inp, out.m, mo["m"], None, 1e-12)
+    cmp("cbcheck-k", "k", inp, out.k, mo["k"], None, 1e-12)
+    want_bset = np.arange(nb) if spec["reorder"] else np.sort(case["bseto"])
+    if not np.array_equal(out.bset, want_bset):
+        ctx.disagree("cbcheck-bset", inp, out.bset.tolist(), want_bset.tolist())
+    sc_rb = max(1.0, np.abs(mo["rbs"]).max())
+    sc_g = max(1.0, np.abs(mo["rbg"]).max())
+    cmp("cbcheck-rbg", "rbg", inp, out.rbg, mo["rbg"], sc_g)
+    cmp("cbcheck-rbs", "rbs", inp, out.rbs, mo["rbs"], sc_rb)
+    free = spec["variant"] not in ("grounded", "grounded1")
+    if free:
+        # eigen-solver specification: span(v[:, :6]) = null(K); tolerance of the shift-invert solve.  With massless /
+        # null DOF this also ties the back expansion of _solve_eig (psi @ v on massless rows, zero on null rows)
+        cmp("cbcheck-rbe", "rbe", inp, out.rbe, mo["rbs"], sc_rb, 1e-7)
+    cmp("cbcheck-effmass", "effmass", inp, out.effmass.values, mo["effmass"], max(np.abs(np.diag(mo["mg"])).max(), 1e-300))
+    if nq:
+        with np.errstate(invalid="ignore", divide="ignore"):
+            cmp("cbcheck-effmass", "effmass_percent", inp, out.effmass_percent.values, mo["percent"],
+                max(100.0, np.nanmax(np.abs(mo["percent"]))))
+    cmp("cbcheck-frq", "cb_frq", inp, out.cb_frq, mo["frq"])
+    cmp("cbcheck-frq", "effmass index", inp, np.asarray(out.effmass.index, float), mo["frq"])
+    kbbmax = max(np.abs(out.k[np.ix_(out.bset, out.bset)]).max(), 1e-300)
+    if rp["refchk"] != mo["chk"]:
+        margin = np.abs(mo["resid"]).max() / kbbmax
+        if 1e-9 < margin < 1e-3:
+            ctx.skip("refpoint_chk within a decade of its threshold")
+        else:
+            ctx.disagree("cbcheck-refchk", inp, rp["refchk"], mo["chk"])
+    # --- zero-stiffness trimming (_cbcoordchk) and the two reductions of _solve_eig: which DOF (exact)
+    zk_new = sorted(_positions_after(case, case["zero_k"]))
+    if mo["ntrim"] != (len(zk_new) if nb > 6 else 0):
+        ctx.disagree("cbcheck-trim", inp, {"zero-stiffness boundary DOF": zk_new}, {"model trimmed": mo["ntrim"]})
+    if (rp["trim_null"] or []) != mo["null"]:
+        ctx.disagree("cbcheck-trim", inp, {"printed null columns": rp["trim_null"]}, {"model": mo["null"]})
+    if (rp["trim_massless"] or []) != mo["massless"]:
+        ctx.disagree("cbcheck-trim", inp, {"printed massless DOF": rp["trim_massless"]}, {"model": mo["massless"]})
+    if mo["ntrim"]:
+        ctx.count("coordchk:zero-stiffness-trimmed")
+    if mo["null"]:
+        ctx.count("solve_eig:null-columns-trimmed")
+    if mo["massless"]:
+        ctx.count("solve_eig:massless-guyan-reduced")
+    # --- the printed report (print precision; half a unit of the last digit with head-room)
+    R = "cbcheck-report"
+    kmx = max(np.abs(mo["k"]).max(), 1e-300)
+    mmx = max(np.abs(mo["ms"]).max(), np.abs(mo["mg"]).max(), 1e-300)
+    fin_s = bool(np.all(np.isfinite(mo["ms"])))
+    _tab_close(ctx, R, inp, "6x6 stiffness mass", rp["mass_stiffness"], mo["ms"], 0.6e-4, 1e-8, mmx)
+    _tab_close(ctx, R, inp, "6x6 geometry mass", rp["mass_geometry"], mo["mg"], 0.6e-4, 1e-8, mmx)
+    for key, dm, gy, In in (("s", mo["ds"], mo["gyrs"], mo["Is"]), ("g", mo["dg"], mo["gyrg"], mo["Ig"])):
+        nm = {"s": "stiffness", "g": "geometry"}[key]
+        lsc = max(1.0, np.abs(dm[np.isfinite(dm)]).max(initial=0.0))
+        _tab_close(ctx, R, inp, "printed cg (%s)" % key, rp["cg"].get(key), dm, 0.6e-6, 1e-8, lsc)
+        _tab_close(ctx, R, inp, "radius of gyration (%s)" % key, rp["gyr"].get(key), gy, 0.6e-6, 1e-7,
+                   max(1.0, np.abs(gy[np.isfinite(gy)]).max(initial=0.0)))
+        _tab_close(ctx, R, inp, "inertia @ cg (%s)" % key, rp.get("inertia_" + nm), In, 0.6e-4, 1e-7, mmx)
+    rbmx = max(1.0, np.abs(mo["rbs"]).max(), np.abs(mo["rbg"]).max())
+    gtol = 1e-9 * kmx * rbmx
+    _tab_close(ctx, R, inp, "K*RB (stiffness), boundary rows", rp.get("krb_stiffness"), mo["rbfs"][:nb], 0.6e-3, 1.0, gtol)
+    _tab_close(ctx, R, inp, "K*RB (stiffness), modal rows", rp.get("krbq_stiffness"), mo["rbfs"][nb:], 0.6e-3, 1.0, gtol)
+    _tab_close(ctx, R, inp, "K*RB (geometry)", rp.get("krb_geometry"), mo["rbfg"], 0.6e-3, 1.0, gtol)
+    _tab_close(ctx, R, inp, "RB'*K*RB (stiffness)", rp["ground_stiffness"], mo["Ss"], 0.6e-3, 1.0, gtol * rbmx)
+    _tab_close(ctx, R, inp, "RB'*K*RB (geometry)", rp["ground_geometry"], mo["Sg"], 0.6e-3, 1.0, gtol * rbmx)
+    if rp.get("move_t") is not None and rp["move_t"].shape == (ng, 9):
+        _tab_close(ctx, R, inp, "translation movement (stiffness)", rp["move_t"][:, :3], mo["rsss"], 0.6e-3, 1e-8, sc_rb)
+        _tab_close(ctx, R, inp, "translation movement (geometry)", rp["move_t"][:, 3:6], mo["rssg"], 0.6e-3, 1e-8, sc_g)
+        _tab_close(ctx, R, inp, "rotation movement (stiffness)", rp["move_r"][:, :3], mo["rots"], 0.6e-3, 1e-8, sc_rb)
+        _tab_close(ctx, R, inp, "rotation movement (geometry)", rp["move_r"][:, 3:6], mo["rotg"], 0.6e-3, 1e-8, sc_g)
+    else:
+        ctx.disagree(R, inp, "movement check tables not found", "%d rows of 9 numbers" % ng)
+    csc = max(1.0, np.abs(mo["coords"]).max())
+    _tab_close(ctx, R, inp, "stiffness-based coordinates", rp.get("coords"), mo["coords"], 0.6e-2, 1e-8, csc)
+    if rp.get("coord_err") is not None and len(rp["coord_err"]) == ng:
+        # errors of a valid model are round-off (not comparable digit by digit): compare above 1e-9 * scale only
+        big = np.abs(mo["errs"]) > 1e-7 * csc
+        if not np.all(np.abs(rp["coord_err"] - mo["errs"])[big] <= 1e-3 * np.abs(mo["errs"])[big] + 1e-7 * csc) or \
+                not np.all(np.abs(rp["coord_err"][~big]) <= 2e-7 * csc):
+            ctx.disagree(R, inp, {"what": "coordinate errors", "printed": rp["coord_err"].tolist()}, mo["errs"].tolist())
+        warn_model = int(np.sum(mo["errs"] > np.abs(mo["coords"]).max(axis=1) * 1e-4))
+        near = np.any(np.abs(mo["errs"] - np.abs(mo["coords"]).max(axis=1) * 1e-4) <= 1e-3 * np.abs(mo["errs"]) + 1e-12 * csc)
+        if rp["coord_warnings"] != warn_model and not near:
+            ctx.disagree(R, inp, {"what": "pattern warnings", "printed": rp["coord_warnings"]}, warn_model)
+    ids_model = [case["ids"][g] for g in (spec["gridperm"] if spec["reorder"] else range(spec["nbg"]))]
+    if rp.get("coord_ids") != ids_model:
+        ctx.disagree(R, inp, {"what": "ids of the coordinate table", "printed": rp.get("coord_ids")}, ids_model)
+    # fixed-base table: mode number, frequency (3 decimals), percent (2 decimals), column totals
+    if nq:
+        if rp.get("em_percent") is None or rp["em_modes"] != list(range(1, nq + 1)):
+            ctx.disagree(R, inp, {"what": "effective mass table rows", "modes": rp.get("em_modes")}, list(range(1, nq + 1)))
+        elif np.all(np.isfinite(mo["percent"])):
+            _tab_close(ctx, R, inp, "effective mass table: percent", rp["em_percent"], mo["percent"], 0.6e-2, 1e-7, 100.0)
+            _tab_close(ctx, R, inp, "effective mass table: frequency", rp["em_frq"], mo["frq"], 0.6e-3, 1e-9)
+            _tab_close(ctx, R, inp, "effective mass table: totals", rp["em_total"], mo["percent"].sum(axis=0), 0.6e-2, 1e-7, 100.0)
+    # matrix value checks (%g, 6 significant digits) on the matrices _solve_eig hands back
+    for j, key in enumerate(("mqq_diag", "mqq_off", "kbb_max", "kbq_max", "kqq_off", "kqq_min")):
+        got = rp["vals"].get(key)
+        want = float(mo["vals"][j])
+        if got is None:
+            ctx.disagree(R, inp, "value check line %s not found" % key, want)
+        elif not abs(got - want) <= 2e-5 * abs(want) + (1e-9 * kmx if key.startswith("k") else 1e-12):
+            ctx.disagree(R, inp, {"what": "value check " + key, "printed": got}, want)
+    ids_impl = [int(x) for x in out.uset.index.get_level_values("id")[::6]]
+    if ids_impl != ids_model:
+        ctx.disagree("cbcheck-uset-order", inp, ids_impl, ids_model)
+
+
+def _positions_after(case, bdofs):
+    """where the boundary DOF `bdofs` (indices into the physical boundary order of build_case) end up in cbcheck's
+    output b-set: after reordering the b-set is listed grid by grid in `gridperm` order"""
+    spec = case["spec"]
+    perm = spec["gridperm"] if spec["reorder"] else list(range(spec["nbg"]))
+    pos = {}
+    for newg, g in enumerate(perm):
+        for c in range(6):
+            pos[6 * g + c] = 6 * newg + c
+    return [pos[int(d)] for d in bdofs]
 
 
 def correspondence(ctx):
@@ -764,14 +1740,70 @@ def correspondence(ctx):
         if case["red"]["cond"] > 1e8 or abs(case["red"]["w"] - 1.0).min(initial=9.0) < 1e-3:
             ctx.skip("structure outside conditioning domain")
             continue
-        if case["nb"] > 6:
+        if case["nb"] > 6 and not _bref_on_pinned(spec):
             r0 = 6 * spec["brefgrid"]
-            oo = np.setdiff1d(np.arange(case["nb"]), np.arange(r0, r0 + 6))
-            if np.linalg.cond(kbb[np.ix_(oo, oo)]) > 1e6:
+            oo = np.setdiff1d(np.setdiff1d(np.arange(case["nb"]), np.arange(r0, r0 + 6)), case["zero_k"])
+            if len(oo) and np.linalg.cond(kbb[np.ix_(oo, oo)]) > 1e6:
                 ctx.skip("koo of the boundary stiffness ill-conditioned (> 1e6)")
+                continue
+        if len(case["zero_m"]) > len(case["zero_k"]):
+            zz = np.setdiff1d(case["zero_m"], case["zero_k"])
+            if np.linalg.cond(case["red"]["Kcb"][np.ix_(zz, zz)]) > 1e8:
+                ctx.skip("stiffness of the massless DOF ill-conditioned (> 1e8)")
                 continue
         cb_cases.append(case)
         req.append(cbcheck_request(case))
+
+    # --- G: _solve_eig (null columns, Guyan reduction of massless DOF, back expansion) ---------------
+    rng = ctx.np_rng(7)
+    eg_cases = []
+    for c in eig_cases(rng, ctx.pick(48, 400)):
+        zz = np.ix_(c["massless"], c["massless"])
+        if c["massless"] and np.linalg.cond(c["k"][zz]) > 1e6:
+            ctx.skip("solve_eig: stiffness of the massless DOF ill-conditioned")
+            continue
+        try:
+            ff, txt = run_solve_eig(c)
+        except Exception as e:  # noqa: BLE001 - the model has no exception here
+            ctx.disagree("solve_eig", {"bset": c["bset"], "null": c["null"], "massless": c["massless"]},
+                         "exception %s: %s" % (type(e).__name__, str(e)[:200]), "a result")
+            continue
+        c["ff"], c["txt"] = ff, txt
+        nt = c["k"].shape[0]
+        eg_cases.append(c)
+        req.append("solveeig %d %d %d %s %s %s %s" % (nt, len(c["bset"]), ff.v.shape[1], ints(c["bset"]), bits(c["m"]), bits(c["k"]),
+                                                      bits(ff.v)))
+    # --- H: rbdispchk ------------------------------------------------------------------------------
+    rng = ctx.np_rng(8)
+    rd_cases = rbdisp_cases(rng, ctx.pick(150, 1500))
+    for c in rd_cases:
+        req.append("rbdisp %d %s %s" % (len(c["kinds"]), bits([c["tol"]]), bits(c["rbdisp"])))
+    # --- I: mk_net_drms ------------------------------------------------------------------------------
+    rng = ctx.np_rng(9)
+    nt_cases = []
+    for c in net_cases(rng, ctx.pick(36, 300)):
+        nb_ = build_net(c)
+        if nb_["case"]["red"]["cond"] > 1e8:
+            ctx.skip("net drm: structure outside conditioning domain")
+            continue
+        c["nb_"] = nb_
+        nt_cases.append(c)
+        req.append(net_request(nb_, c["opt"]["conv"], nb_["case"]["Min"]))
+        req.append(net_request(nb_, c["opt"]["conv"], nb_["case"]["Kin"]))
+    # --- J: rbmultchk ----------------------------------------------------------------------------------
+    rng = ctx.np_rng(10)
+    rm_cases = rbmult_cases(rng, ctx.pick(80, 800))
+    for c in rm_cases:
+        bs = c["bset"] if isinstance(c["bset"], list) else (list(range(c["nb"])) if c["bset"] in ("first",) else
+                                                            (list(range(c["nc"] - c["nb"], c["nc"])) if c["bset"] == "last" else
+                                                             list(range(c["nc"]))))
+        c["bs"] = bs
+        req.append("rbmult %d %d %d %s %s %s" % (c["drm"].shape[0], c["nc"], len(bs), ints(bs), bits(c["drm"]), bits(c["rb"])))
+    # --- K: cbtf at 0 Hz ----------------------------------------------------------------------------------
+    rng = ctx.np_rng(11)
+    c0_cases = cbtf0_cases(rng, ctx.pick(60, 600))
+    for c in c0_cases:
+        req.append("cbtf0 %d %d %s %s %s" % (c["M"].shape[0], len(c["bset"]), ints(c["bset"]), bits(c["a"]), bits(c["M"])))
 
     rep = drv.ask(req)
     if any(r == "bad-op" for r in rep):
@@ -834,8 +1866,10 @@ def correspondence(ctx):
             ctx.disagree("cbconvert", dict(inp, M_entry=float(c["M"].ravel()[j]), index=j), float(got.ravel()[j]), float(want.ravel()[j]))
         ctx.case(("conv", c["lt"], tuple(c["b"]), str(c["conv"]), c["drm"]),
                  branch="convert:" + ("tuple" if isinstance(c["conv"], list) else c["conv"]) + ("-drm" if c["drm"] else ""))
+        ngr_ = len(c["b"]) // 6
+        if ngr_ > 1 and c["b"][:6] == [0, 1, 2, 3 * ngr_, 3 * ngr_ + 1, 3 * ngr_ + 2]:
+            ctx.count("convert:component-major")
     # F
-    worst_solve = 0.0
     for case in cb_cases:
         spec = case["spec"]
         mo = parse_cbcheck_reply(rep[k], case["n"], case["nb"])
@@ -846,66 +1880,153 @@ def correspondence(ctx):
             ctx.count(b)
         try:
             out, txt = run_cbcheck(case)
+        except RuntimeError as e:
+            if mo["chk"] == "raise-refpoint" and "reference point has DOF with zero stiffness" in str(e):
+                ctx.count("cbcheck:raises-refpoint-zero-stiffness")
+            else:
+                ctx.disagree("cbcheck", inp, "exception RuntimeError: %s" % str(e)[:200], mo["chk"])
+            continue
         except Exception as e:  # the model has no exception for these inputs
             ctx.disagree("cbcheck", inp, "exception %s: %s" % (type(e).__name__, str(e)[:200]), "a result")
             continue
-        rp = parse_report(txt)
+        if mo["chk"].startswith("raise"):
+            ctx.disagree("cbcheck", inp, "a result", mo["chk"])
+            continue
+        compare_cbcheck(ctx, cmp, case, out, txt, mo)
+        ctx.sample({"cbcheck_spec": spec, "n": case["n"], "refchk": mo["chk"]}, cap=4)
+    # G
+    worst_psi = 0.0
+    for c in eg_cases:
+        t = rep[k].split(" ")
+        k += 1
+        ff, txt = c["ff"], c["txt"]
+        nt, p = c["k"].shape[0], ff.v.shape[1]
+        n1, nx, nzm = int(t[0]), int(t[1]), int(t[2])
+        ii = [int(x) for x in t[3:3 + n1 + nx + nzm + nx]]
+        keep, xs, zs, bflag = ii[:n1], ii[n1:n1 + nx], ii[n1 + nx:n1 + nx + nzm], ii[n1 + nx + nzm:]
+        fl = unbits(t[3 + n1 + 2 * nx + nzm:])
+        kred, mred = fl[:nx * nx].reshape(nx, nx), fl[nx * nx:2 * nx * nx].reshape(nx, nx)
+        off = 2 * nx * nx + nzm * nx
+        presid, vexp = fl[off], fl[off + 1:].reshape(nt, p)
+        inp = {"bset": c["bset"], "null": c["null"], "massless": c["massless"], "n": nt, "kind": c["kind"]}
+        null_model = [i for i in range(nt) if i not in set(keep)]
+        if (_pv_line(txt, "Trimming out null columns") or []) != null_model:
+            ctx.disagree("solve_eig-null", inp, _pv_line(txt, "Trimming out null columns"), null_model)
+        if (_pv_line(txt, "There are massless DOF with stiffness.") or []) != zs:
+            ctx.disagree("solve_eig-massless", inp, _pv_line(txt, "There are massless DOF with stiffness."), zs)
+        if [int(x) for x in ff.b] != bflag or [int(x) for x in ff.q] != [1 - x for x in bflag]:
+            ctx.disagree("solve_eig-bq", inp, [int(x) for x in ff.b], bflag)
+        ksc = np.abs(c["k"]).max()
+        cmp("solve_eig-k", "reduced stiffness", inp, ff.k, kred, ksc)
+        cmp("solve_eig-m", "reduced mass", inp, ff.m, mred, None, 1e-15)
+        cmp("solve_eig-v", "back-expanded eigenvectors", inp, ff.v, vexp, max(np.abs(ff.v).max(), 1e-300))
+        worst_psi = max(worst_psi, presid / ksc)
+        if not presid <= 1e-9 * ksc:
+            ctx.disagree("solve_eig-psi-spec", inp, {"residual of (-kzz) psi = kzx": float(presid)}, "<= 1e-9 * max|k|")
+        ctx.case(("solveeig", k), branch="solve_eig-direct:" + c["kind"])
+    ctx.extra["worst_psi_residual"] = worst_psi
+    # H
+    for c in rd_cases:
+        nn = len(c["kinds"])
+        coords, errs, txt = run_rbdisp(c)
+        inp = {"rbdisp": c["rbdisp"].tolist(), "tol": c["tol"]}
+        k += 1
+        if rep[k - 1] == "raise-singular":
+            ctx.disagree("rbdispchk", inp, "a result", "raise-singular")
+            continue
+        t = rep[k - 1].split(" ")
+        mc_ = unbits(t[:3 * nn]).reshape(nn, 3)
+        me = unbits(t[3 * nn:4 * nn])
+        mw = [int(x) for x in t[4 * nn:]]
+        cmp("rbdispchk-coords", "coords", inp, coords, mc_, max(c["L"], 1e-300))
+        cmp("rbdispchk-errs", "errs", inp, errs, me, max(c["L"], 1e-300))
+        warned = sorted((int(m) - 1) // 3 for m in re.findall(r"starting at row (\d+)", txt))
+        thr = np.abs(mc_).max(axis=1) * c["tol"]
+        if np.any((np.abs(me - thr) <= 1e-6 * thr + 1e-15 * c["L"]) & ~((me == 0) & (thr == 0))):
+            ctx.skip("rbdispchk: a node sits on the warning threshold")
+        elif warned != [j for j in range(nn) if mw[j]]:
+            ctx.disagree("rbdispchk-warn", inp, warned, [j for j in range(nn) if mw[j]])
+        for kd in set(x.rsplit("-", 1)[1] for x in c["kinds"]):
+            ctx.count("rbdisp:" + kd)
+        if warned:
+            ctx.count("rbdisp:warned")
+        ctx.case(("rbdisp", rep[k - 1][:60]), nontrivial=bool(np.any(c["d"] != 0)))
+    # I
+    for c in nt_cases:
+        nb_, opt = c["nb_"], c["opt"]
+        case = nb_["case"]
         n, nb = case["n"], case["nb"]
-        cmp("cbcheck-m", "m", inp, out.m, mo["m"], None, 1e-12)
-        cmp("cbcheck-k", "k", inp, out.k, mo["k"], None, 1e-12)
-        want_bset = np.arange(nb) if spec["reorder"] else np.sort(case["bseto"])
-        if not np.array_equal(out.bset, want_bset):
-            ctx.disagree("cbcheck-bset", inp, out.bset.tolist(), want_bset.tolist())
-        sc_rb = max(1.0, np.abs(mo["rbs"]).max())
-        cmp("cbcheck-rbg", "rbg", inp, out.rbg, mo["rbg"], max(1.0, np.abs(mo["rbg"]).max()))
-        cmp("cbcheck-rbs", "rbs", inp, out.rbs, mo["rbs"], sc_rb)
-        if spec["variant"] != "grounded":
-            # eigen-solver specification: span(v[:, :6]) = null(K); tolerance of the shift-invert solve
-            cmp("cbcheck-rbe", "rbe", inp, out.rbe, mo["rbs"], sc_rb, 1e-7)
-        cmp("cbcheck-effmass", "effmass", inp, out.effmass.values, mo["effmass"], max(np.abs(np.diag(mo["mg"])).max(), 1e-300))
-        if case["nq"]:
-            with np.errstate(invalid="ignore", divide="ignore"):
-                cmp("cbcheck-effmass", "effmass_percent", inp, out.effmass_percent.values, mo["percent"],
-                    max(100.0, np.nanmax(np.abs(mo["percent"]))))
-        cmp("cbcheck-frq", "cb_frq", inp, out.cb_frq, mo["frq"])
-        cmp("cbcheck-frq", "effmass index", inp, np.asarray(out.effmass.index, float), mo["frq"])
-        if rp["refchk"] != mo["chk"]:
-            margin = np.abs(mo["resid"]).max() / max(np.abs(out.k[:nb, :nb]).max(), 1e-300)
-            if 1e-9 < margin < 1e-3:
-                ctx.skip("refpoint_chk within a decade of its threshold")
-            else:
-                ctx.disagree("cbcheck-refchk", inp, rp["refchk"], mo["chk"])
-        # printed mass properties / cg (print precision: 4 and 6 decimals)
-        for key, mm in (("stiffness", mo["ms"]), ("geometry", mo["mg"])):
-            pm = rp["mass_" + key]
-            if pm is None:
-                ctx.disagree("cbcheck-report", inp, "6x6 %s mass block not found in the report" % key, "6x6 block")
-            elif np.all(np.isfinite(mm)) and not np.all(np.abs(pm - mm) <= 0.6e-4 + 1e-8 * np.abs(mm).max()):
-                ctx.disagree("cbcheck-report", inp, {"what": "printed %s mass" % key, "value": pm.tolist()}, mm.tolist())
-        for key, mm in (("s", mo["ms"]), ("g", mo["mg"])):
-            if key in rp["cg"] and np.all(np.isfinite(mm)):
-                dm = np.array([mm[1, 5] / mm[1, 1], mm[2, 3] / mm[2, 2], mm[0, 4] / mm[0, 0]])
-                if not np.all(np.abs(rp["cg"][key] - dm) <= 0.6e-6 + 1e-8 * max(1.0, np.abs(dm).max())):
-                    ctx.disagree("cbcheck-report", inp, {"what": "printed cg (%s)" % key, "value": rp["cg"][key].tolist()}, dm.tolist())
-            elif key not in rp["cg"]:
-                ctx.disagree("cbcheck-report", inp, "cg line (%s) not found" % key, "three numbers")
-        ids_model = None  # uset order: ids after reordering follow bseto
-        perm = spec["gridperm"] if spec["reorder"] else list(range(spec["nbg"]))
-        ids_model = [case["ids"][g] for g in perm]
-        ids_impl = [int(x) for x in out.uset.index.get_level_values("id")[::6]]
-        if ids_impl != ids_model:
-            ctx.disagree("cbcheck-uset-order", inp, ids_impl, ids_model)
-        ctx.sample({"cbcheck_spec": spec, "n": n, "refchk": mo["chk"]}, cap=4)
+        vm = unbits(rep[k].split(" ")).reshape(2, 6, n)
+        vk = unbits(rep[k + 1].split(" ")).reshape(2, 6, n)
+        k += 2
+        inp = {"spec": c["spec"], "opt": opt}
+        ctx.case(("netdrm", json.dumps(inp, sort_keys=True)))
+        for t_, on in (("conv", opt["conv"] is not None), ("bsubset", opt["sub"]), ("sccoord", opt["sccoord"]), ("plain", True)):
+            if on:
+                ctx.count("netdrm:" + t_)
+        try:
+            res, _ = run_net(nb_, opt["conv"])
+        except Exception as e:  # noqa: BLE001
+            ctx.disagree("mk_net_drms", inp, "exception %s: %s" % (type(e).__name__, str(e)[:200]), "a result")
+            continue
+        T6 = np.eye(6)
+        if nb_["sccoord"] is not None:
+            T6 = np.block([[nb_["sccoord"].T, np.zeros((3, 3))], [np.zeros((3, 3)), nb_["sccoord"].T]])
+        bset = np.asarray(nb_["bset"])
+        cmp("mk_net_drms-ifltma_sc", "ifltma_sc", inp, res.ifltma_sc, vm[0])
+        cmp("mk_net_drms-ifltma_lv", "ifltma_lv", inp, res.ifltma_lv, T6 @ vm[1])
+        ksc = max(np.abs(case["Kin"]).max(), 1e-300) * max(1.0, np.abs(res.rb_all).max())
+        cf = conv_factors(opt["conv"])
+        lc, mc = cf if cf else (1.0, 1.0)
+        cmp("mk_net_drms-ifltmd_sc", "ifltmd_sc", inp, res.ifltmd_sc, vk[0][:, bset], ksc * max(1.0, 1 / lc))
+        cmp("mk_net_drms-ifltmd_lv", "ifltmd_lv", inp, res.ifltmd_lv, T6 @ vk[1][:, bset], ksc * mc * lc * max(lc, 1.0))
+        cmp("mk_net_drms-stack", "ifltma rows", inp, res.ifltma, np.vstack((res.ifltma_sc, res.ifltma_lv)), None, 1e-15)
+    # J
+    for c in rm_cases:
+        got, _ = run_rbmult(c)
+        want = unbits(rep[k].split(" ")).reshape(-1, 6)
+        k += 1
+        cmp("rbmultchk", "drmrb", {"mode": c["mode"], "bset": c["bs"], "drm": c["drm"].tolist(), "rb": c["rb"].tolist()}, got, want,
+            None, 1e-12)
+        ctx.case(("rbmult", rep[k - 1][:60]), branch="rbmult:" + c["mode"])
+    # K
+    for c in c0_cases:
+        tf = run_cbtf0(c)
+        nb, nt = len(c["bset"]), c["M"].shape[0]
+        v = unbits(rep[k].split(" "))
+        k += 1
+        frc, rhs = v[:nb], v[nb:]
+        bset = np.array(c["bset"])
+        qset = np.setdiff1d(np.arange(nt), bset)
+        inp = {"bset": c["bset"], "layout": c["layout"], "freq": c["freq"], "a": c["a"].tolist(), "M": c["M"].tolist(), "K": c["K"].tolist()}
+        cmp("cbtf-static-frc", "frc at 0 Hz", inp, np.real(tf.frc[:, 0]), frc)
+        # specification of fsolve at 0 Hz: Kqq dq = rhs (the harness solves the model's right-hand side)
+        dq = np.linalg.solve(c["K"][np.ix_(qset, qset)], rhs)
+        cmp("cbtf-static-dq", "modal displacement at 0 Hz", inp, np.real(tf.d[qset, 0]), dq)
+        if np.abs(tf.d[bset, 0]).max() != 0 or np.abs(tf.v[:, 0]).max() != 0 or np.abs(np.imag(tf.frc[:, 0])).max() > 1e-12 * np.abs(frc).max():
+            ctx.disagree("cbtf-static-zero", inp, "non-zero boundary displacement / velocity / imaginary force at 0 Hz", "zero")
+        ctx.case(("cbtf0", rep[k - 1][:60]), branch="cbtf0:b" + c["layout"] + ("-permuted" if c["bset"] != sorted(c["bset"]) else ""))
+    if k != len(rep):
+        raise Infra("C06: %d replies consumed of %d" % (k, len(rep)))
     ctx.extra["worst_relative_difference"] = cmp.worst
     ctx.require_branches([
         "cgmass:doc-unequal", "cgmass:rigid-equal", "rbgeom:ref-index", "rbgeom:ref-vector",
         "uset:rect", "uset:cyl", "uset:sph", "uset:basic", "uset:cyl-on-axis", "uset:sph-on-axis",
         "reorder:first", "reorder:last", "reorder:lq0", "reorder:first-drm", "reorder:last-drm",
-        "convert:m2e", "convert:e2m", "convert:tuple", "convert:tuple-drm",
+        "convert:m2e", "convert:e2m", "convert:tuple", "convert:tuple-drm", "convert:component-major",
         "nbg:1", "nbg:2", "nbg:3", "layout:first", "layout:last", "layout:mixed", "variant:valid",
         "variant:grounded", "variant:perturbed", "conv:None", "conv:m2e", "conv:e2m", "conv:tuple",
         "uref:id", "uref:vec", "uref:origin", "rbnorm:None", "rbnorm:True", "rbnorm:False",
         "reorder:True", "reorder:False", "gridperm:non-involution", "mass:unequal-translational",
+        # extension round
+        "variant:grounded1", "special:massless6", "special:massless-rot", "special:pinned",
+        "coordchk:zero-stiffness-trimmed", "solve_eig:null-columns-trimmed", "solve_eig:massless-guyan-reduced",
+        "cbcheck:raises-refpoint-zero-stiffness",
+        "solve_eig-direct:none", "solve_eig-direct:null", "solve_eig-direct:massless", "solve_eig-direct:both",
+        "rbdisp:exact", "rbdisp:small", "rbdisp:large", "rbdisp:warned",
+        "netdrm:plain", "netdrm:conv", "netdrm:bsubset", "netdrm:sccoord",
+        "rbmult:first", "rbmult:last", "rbmult:vector", "rbmult:full",
+        "cbtf0:bfirst", "cbtf0:blast", "cbtf0:bmixed",
     ])
 
 
@@ -1229,12 +2350,20 @@ def oracle_cbcheck(spec):
         tags.append("noreorder")
     if any(np.ndim(c) for c in (case["st"]["css"][g] for g in case["bgrids"])):
         tags.append("localcs")
+    if spec.get("special"):
+        tags.append(spec["special"])
     base = "cbcheck-" + "-".join(tags)
     try:
         res, txt = run_cbcheck(case)
     except Exception as e:
+        if _bref_on_pinned(spec) and isinstance(e, RuntimeError) and "zero stiffness" in str(e):
+            return out  # documented: a reference DOF without stiffness cannot restrain rigid-body motion
         _fail(out, base + "-raises-" + type(e).__name__, "cbcheck raises on a well-formed model", inp,
               "%s: %s" % (type(e).__name__, str(e)[:200]), "a result")
+        return out
+    if _bref_on_pinned(spec):
+        _fail(out, base + "-refpoint-zero-stiffness-accepted", "reference DOF without stiffness must raise RuntimeError", inp,
+              "a result", "RuntimeError")
         return out
     rp = parse_report(txt)
     nb, n, nq = case["nb"], case["n"], case["nq"]
@@ -1253,7 +2382,9 @@ def oracle_cbcheck(spec):
     rbs_b, rbe_b = res.rbs[bsl], res.rbe[bsl]
     scs = max(1.0, np.abs(tr["rbs_b"]).max())
     geometry_ok = variant != "perturbed"
-    free = variant != "grounded"
+    free = variant not in ("grounded", "grounded1")
+    zr = tr["zero_rows"]
+    nzr = np.setdiff1d(np.arange(nb), zr)
     # --- the three rigid-body sets against the structure's true rigid-body motion
     if geometry_ok and not _close(res.rbg, tr["rbg"], 1e-9, max(1.0, np.abs(tr["rbg"]).max()))[0]:
         _fail(out, fam("rbg"), "geometry-based rb modes differ from the true rigid-body motion of the boundary grids",
@@ -1275,7 +2406,7 @@ def oracle_cbcheck(spec):
         else np.arange(6 * spec["brefgrid"], 6 * spec["brefgrid"] + 6)
     with np.errstate(all="ignore"):
         try:
-            geo_dev = np.abs(res.rbg @ np.linalg.inv(res.rbg[refrow]) - rbs_b @ np.linalg.inv(rbs_b[refrow])).max()
+            geo_dev = np.abs((res.rbg @ np.linalg.inv(res.rbg[refrow]) - rbs_b @ np.linalg.inv(rbs_b[refrow]))[nzr]).max()
         except np.linalg.LinAlgError:
             geo_dev = float("inf")
     kg = np.abs(kbb @ res.rbg).max()
@@ -1291,7 +2422,7 @@ def oracle_cbcheck(spec):
         if pg is None or np.abs(pg).max() > 0.0011 + 1e-8 * ks * L * L:
             _fail(out, fam("report-grounding"), "printed RB'*K*RB (stiffness) is not zero", inp,
                   None if pg is None else float(np.abs(pg).max()), "0.000")
-    elif variant == "grounded":
+    elif variant in ("grounded", "grounded1"):
         flagged = (rp["refchk"] == "fail") or ground_ratio > 1e-6
         if not flagged:
             _fail(out, fam("not-flagged"), "a spring to ground is not visible in refpoint_chk / RB'*K*RB", inp,
@@ -1367,7 +2498,167 @@ def oracle_cbcheck(spec):
                 want_res = np.diag(RB.T @ M2 @ RB - v.T @ np.linalg.solve(M2[np.ix_(o, o)], v))
                 if not _close(resid, want_res, 1e-7, tot)[0]:
                     _fail(out, fam("effmass-total"), "effective mass + boundary residual != total mass", inp, resid.tolist(), want_res.tolist())
+    oracle_report(out, fam, inp, case, tr, res, rp, free, geometry_ok)
     return out
+
+
+def _pr_bad(printed, want, half, rel=1e-7, scale=None):
+    """None if the printed table equals `want` at print precision, else a short description"""
+    if printed is None:
+        return "table not found in the report"
+    printed, want = np.asarray(printed, float), np.asarray(want, float)
+    if printed.shape != want.shape:
+        return "shape %s, expected %s" % (printed.shape, want.shape)
+    if want.size == 0:
+        return None
+    sc = scale if scale is not None else max(np.abs(want).max(), 1e-300)
+    err = np.abs(printed - want)
+    if np.all(err <= half + rel * sc):
+        return None
+    j = int(np.argmax(err))
+    return "entry %d printed %r, expected %r" % (j, float(printed.ravel()[j]), float(want.ravel()[j]))
+
+
+def oracle_report(out, fam, inp, case, tr, res, rp, free, geometry_ok):
+    """the printed report against the generator's ground truth: coordinates, movement checks, cg, radii of gyration,
+    inertia, grounding tables, free-free frequencies, effective-mass table, value checks, rbe normalisation"""
+    spec = case["spec"]
+    nb, nq, n = case["nb"], case["nq"], case["n"]
+    ng = nb // 6
+    L, ks = tr["L"], tr["kscale"]
+    zr = tr["zero_rows"]
+    rbn = tr["rbnorm"]
+
+    def chk(q, what, printed, want, half, rel=1e-7, scale=None):
+        bad = _pr_bad(printed, want, half, rel, scale)
+        if bad:
+            _fail(out, fam("report-" + q), "printed %s differs from the structure's ground truth" % what, inp, bad,
+                  "equal at print precision")
+
+    # --- rbe normalisation: identity (or the geometry rows when rb_norm) on the reference DOF
+    bsl = np.asarray(res.bset)
+    refrow = np.array([i for i in range(nb) if spec["gridperm"][i // 6] == spec["brefgrid"]]) if spec["reorder"] \
+        else np.arange(6 * spec["brefgrid"], 6 * spec["brefgrid"] + 6)
+    want_ref = res.rbg[refrow] if rbn else np.eye(6)
+    for nm, rb in (("rbs", res.rbs), ("rbe", res.rbe)):
+        if not _close(rb[bsl][refrow], want_ref, 1e-8, max(1.0, np.abs(want_ref).max()))[0]:
+            _fail(out, fam(nm + "-normalisation"), "%s on the reference DOF is not %s" % (nm, "rbg[bref] (rb_norm)" if rbn else "the identity"),
+                  inp, rb[bsl][refrow].tolist(), want_ref.tolist())
+    # --- stiffness-based coordinates and the pattern errors
+    if free and (geometry_ok or not rbn):
+        chk("coords", "stiffness-based coordinates", rp.get("coords"), tr["coords"], 0.6e-2, 1e-7, max(1.0, np.abs(tr["coords"]).max()))
+        ce = rp.get("coord_err")
+        if ce is None or len(ce) != ng or not np.all(ce <= 1e-7 * max(1.0, np.abs(tr["coords"]).max())) or rp["coord_warnings"]:
+            _fail(out, fam("report-coord-errors"), "rbdispchk reports a deviation from the rigid-body pattern on a valid model", inp,
+                  {"errors": None if ce is None else ce.tolist(), "warnings": rp["coord_warnings"]}, "errors ~ 0, no warning")
+        if rp.get("coord_maxerr") is not None and ce is not None and len(ce) and \
+                abs(rp["coord_maxerr"] - ce.max()) > 1e-3 * ce.max() + 1e-300:
+            _fail(out, fam("report-coord-errors"), "printed maximum error is not the maximum of the error column", inp,
+                  rp["coord_maxerr"], float(ce.max()))
+    if rp.get("coord_ids") != tr["ids"]:
+        _fail(out, fam("report-coords"), "node ids of the coordinate table", inp, rp.get("coord_ids"), tr["ids"])
+    # --- movement checks: unit translation / rotation of every grid (zero where there is no stiffness)
+    if free and geometry_ok and rp.get("move_t") is not None and rp["move_t"].shape == (ng, 9):
+        one_t = np.ones((ng, 3))
+        one_r = np.ones((ng, 3))
+        for kk in zr:
+            (one_t if kk % 6 < 3 else one_r)[kk // 6] = np.nan  # a partly trimmed block: value depends on the axes
+        full_r = np.array([np.all([(6 * g + c) in set(zr.tolist()) for c in (3, 4, 5)]) for g in range(ng)])
+        one_r[full_r] = 0.0
+        for nm, T, want in (("translation", rp["move_t"], one_t), ("rotation", rp["move_r"], one_r)):
+            for c0, lbl, w in ((0, "stiffness", want), (3, "geometry", np.ones((ng, 3))), (6, "eigenvalue", want)):
+                blk = T[:, c0:c0 + 3]
+                m = np.isfinite(w)
+                if not np.all(np.abs(blk - np.where(m, w, 0))[m] <= 1.1e-3):
+                    _fail(out, fam("report-movement"), "%s movement check (%s-based) is not 1.000 (0.000 without stiffness)" % (nm, lbl),
+                          inp, blk.tolist(), w.tolist())
+    elif rp.get("move_t") is None or rp["move_t"].shape != (ng, 9):
+        _fail(out, fam("report-movement"), "movement check tables not found", inp, None, "%d rows" % ng)
+    # --- cg, radii of gyration, inertia
+    if free and geometry_ok:
+        lsc = max(1.0, L)
+        msc = max(np.abs(tr["Icg"]).max(), 1e-300)
+        chk("cg", "cg (geometry)", rp["cg"].get("g"), tr["cg_g"], 0.6e-6, 1e-6, lsc)
+        A3d = np.diag(case["st"]["A3"])
+        chk("gyration", "radius of gyration (geometry)", rp["gyr"].get("g"), np.sqrt(np.diag(tr["Icg"]) / (tr["mt"] * A3d)), 0.6e-6, 1e-6, lsc)
+        chk("inertia", "inertia @ cg (geometry)", rp.get("inertia_geometry"), tr["Icg"], 0.6e-4, 1e-6, msc)
+        if tr["iso"]:
+            pI = np.linalg.eigvalsh(tr["Icg"])
+            for key, nm in (("s", "stiffness"), ("e", "eigensolution"), ("g", "geometry")):
+                rel = 1e-5 if key == "e" else 1e-6
+                if key != "g":
+                    chk("cg", "cg (%s)" % nm, rp["cg"].get(key), tr["cg_s"], 0.6e-6, rel, lsc)
+                    chk("gyration", "radius of gyration (%s)" % nm, rp["gyr"].get(key), np.sqrt(np.diag(tr["Icg_s"]) / tr["mt"]), 0.6e-6, rel, lsc)
+                    chk("inertia", "inertia @ cg (%s)" % nm, rp.get("inertia_" + nm), tr["Icg_s"], 0.6e-4, rel, msc)
+                chk("principal", "principal moments (%s)" % nm, rp.get("pinertia_" + nm), pI, 0.6e-4, rel, msc)
+                chk("principal", "principal radii of gyration (%s)" % nm, rp["pgyr"].get(key), np.sqrt(pI / tr["mt"]), 0.6e-6, rel, lsc)
+    # --- grounding tables
+    kmx = max(np.abs(res.k).max(), 10 * ks * max(1.0, L) ** 2)
+    rbmx = max(1.0, np.abs(tr["rbg"]).max(), np.abs(tr["rbs_b"]).max())
+    if free and geometry_ok:
+        gt = 0.6e-3 + 1e-9 * kmx * rbmx
+        for key in ("stiffness", "geometry", "eigensolution"):
+            rel = 1e-6 if key == "eigensolution" else 1e-9
+            for nm, rows in (("krb_", nb), ("krbq_", nq if key != "geometry" else 0)):
+                T = rp.get(nm + key)
+                if T is None or T.shape != (rows, 6) or not np.all(np.abs(T) <= 0.6e-3 + rel * kmx * rbmx):
+                    _fail(out, fam("report-grounding"), "K*RB table (%s-based) of a free model is not zero / not complete" % key, inp,
+                          None if T is None else [list(T.shape), float(np.abs(T).max(initial=0.0))], "%d rows of zeros" % rows)
+            S = rp["ground_" + key]
+            if S is None or not np.all(np.abs(S) <= 0.6e-3 + rel * kmx * rbmx * rbmx):
+                _fail(out, fam("report-grounding"), "printed RB'*K*RB (%s) is not zero" % key, inp,
+                      None if S is None else float(np.abs(S).max()), "0.000")
+    elif geometry_ok:
+        # grounded: the geometry-based table is Kbb times the true rigid-body motion
+        want = tr["kbb_out"] @ tr["rbg"]
+        chk("grounding", "K*RB (geometry-based) of a grounded model", rp.get("krb_geometry"), want, 0.6e-3, 1e-8, kmx * rbmx)
+        chk("grounding", "RB'*K*RB (geometry-based) of a grounded model", rp.get("ground_geometry"), tr["rbg"].T @ want, 0.6e-3, 1e-8, kmx * rbmx * rbmx)
+    # --- free-free frequencies: the finite eigenvalues of the (K, M) pencil (massless DOF condensed, null DOF dropped)
+    pt = pencil_truth(tr["Kcb"], tr["Mcb"], nb)
+    ff = rp.get("ff")
+    if ff is None or len(ff) == 0:
+        _fail(out, fam("report-freefree"), "free-free frequency table not found", inp, None, "a table")
+    else:
+        want = np.sqrt(pt["w"][:len(ff)]) / (2 * math.pi)
+        # (near-)rigid-body modes are round-off of the shift-invert solve: not comparable digit by digit
+        noise = 1e-4 * math.sqrt(pt["w"].max()) / (2 * math.pi)
+        el = want > noise
+        ok = len(want) == len(ff) and np.all(np.abs(ff - want)[el] <= 0.6e-6 + 1e-6 * np.abs(want[el])) and \
+            np.all(ff[~el] <= 2 * noise) and int((~el).sum()) == (6 if free else int((~el).sum()))
+        if not ok:
+            _fail(out, fam("report-freefree"), "free-free frequencies differ from the finite eigenvalues of the (K, M) pencil", inp,
+                  ff.tolist(), want.tolist())
+    # which DOF were reduced out (the printed pv lists)
+    nullp = sorted(_positions_after(case, [i for i in pt["null"] if i < nb]))
+    if (rp["trim_null"] or []) != nullp:
+        _fail(out, fam("report-trim"), "null columns listed by _solve_eig", inp, rp["trim_null"], nullp)
+    if len(rp["trim_massless"] or []) != len(pt["massless"]):
+        _fail(out, fam("report-trim"), "massless DOF listed by _solve_eig", inp, rp["trim_massless"], "%d DOF" % len(pt["massless"]))
+    # --- fixed-base modes / effective mass table
+    if geometry_ok and free and nq:
+        if rp.get("em_percent") is None or rp.get("em_modes") != list(range(1, nq + 1)):
+            _fail(out, fam("report-effmass"), "effective mass table incomplete", inp, rp.get("em_modes"), "modes 1..%d" % nq)
+        else:
+            chk("effmass", "percent effective mass", rp["em_percent"], tr["percent"], 0.6e-2, 1e-6, 100.0)
+            chk("effmass", "fixed-base frequencies of the table", rp["em_frq"], tr["frq"], 0.6e-3, 1e-8)
+            chk("effmass", "total effective mass line", rp["em_total"], tr["percent"].sum(axis=0), 0.6e-2, 1e-6, 100.0)
+            if rp["em_total"] is not None and np.any(rp["em_total"][:3] > 100.006):
+                _fail(out, fam("report-effmass"), "translational effective mass exceeds 100 percent", inp, rp["em_total"].tolist(), "<= 100")
+    # --- matrix value checks
+    v = rp["vals"]
+    if free or True:
+        want = {"mqq_diag": 0.0, "mqq_off": 0.0, "kbq_max": 0.0, "kqq_off": 0.0}
+        for key, w in want.items():
+            if key not in v or abs(v[key]) > (1e-9 * kmx if key.startswith("k") else 1e-11):
+                _fail(out, fam("report-values"), "value check %s of a Craig-Bampton model is not zero" % key, inp, v.get(key), 0.0)
+        if nq:
+            kq = float(np.min(np.diag(tr["Kcb"])[nb:]))
+            if "kqq_min" not in v or abs(v["kqq_min"] - kq) > 2e-5 * abs(kq):
+                _fail(out, fam("report-values"), "minimum diagonal of KQQ", inp, v.get("kqq_min"), kq)
+        if "kbb_max" not in v or abs(v["kbb_max"] - pt["kbb_max"]) > 2e-5 * pt["kbb_max"] + 1e-9 * kmx:
+            _fail(out, fam("report-values"), "maximum of KBB (after the massless DOF are condensed)", inp, v.get("kbb_max"), pt["kbb_max"])
+
+
 
 
 def probe_noreorder(seed):
@@ -1386,8 +2677,94 @@ def probe_noreorder(seed):
     return out, spec
 
 
+def probe_net_reorder(seed):
+    """mk_net_drms(reorder=True) against the same call on the sorted b-set: the recovery matrices must be the same up
+    to the column permutation.  New finding: with a boundary order that is not its own inverse the uset is permuted
+    with np.argsort(bset) - the inverse of the permutation cbreorder applies (the defect F26 repaired in cbcheck)."""
+    from pyyeti import cb
+
+    out = []
+    rng = np.random.default_rng(seed)
+    spec = gen_spec(rng)
+    nbg = int(rng.choice([2, 3, 3, 4]))
+    spec.update(nbg=nbg, ngrids=nbg + int(rng.integers(1, 4)), variant="valid", reorder=True, conv=None, uref="origin",
+                rbnorm=None, brefgrid=0, layout=str(rng.choice(["first", "last", "mixed"])))
+    spec["nq"] = max(1, spec["nq"])
+    spec["gridperm"] = [int(x) for x in rng.permutation(nbg)]
+    return probe_net_reorder_spec(spec, True)
+
+
+def probe_net_reorder_spec(spec, with_kind=False):
+    from pyyeti import cb
+
+    out = []
+    perm, nbg = spec["gridperm"], spec["nbg"]
+    case = build_case(spec)
+    inp = {"kind": "netdrm-reorder-probe", "spec": spec}
+    inv = [perm.index(i) for i in range(nbg)]
+    kind = "sorted" if perm == sorted(perm) else ("involution" if inv == perm else "non-involution")
+    fam = "mk_net_drms-reorder-uset-order-not-involution" if kind == "non-involution" else "mk_net_drms-reorder-" + kind
+    n, nb = case["n"], case["nb"]
+    bset = case["bseto"]
+    uset = case["uset"]  # rows in ascending matrix position (physical grid order), as cbcheck takes it
+    with warnings.catch_warnings():
+        warnings.simplefilter("ignore")
+        try:
+            indep = 123456 if nbg == 2 else None  # (an RBE3 on the translations of two grids is rank deficient)
+            r1 = cb.mk_net_drms(case["Min"].copy(), case["Kin"].copy(), bset.copy(), uset=uset, ref=[0, 0, 0], reorder=True,
+                                rbe3_indep_dof=indep)
+            r0 = cb.mk_net_drms(case["Min"].copy(), case["Kin"].copy(), np.sort(bset), uset=uset, ref=[0, 0, 0], reorder=False,
+                                rbe3_indep_dof=indep)
+        except Exception as e:  # noqa: BLE001
+            _fail(out, fam + "-raises-" + type(e).__name__, "mk_net_drms raises", inp, repr(e)[:200], "a result")
+            return (out, kind) if with_kind else out
+    pv = np.concatenate([bset, np.setdiff1d(np.arange(n), bset)])
+    for nm in ("ifltma_sc", "ifatm_sc", "cgatm_sc"):
+        a, b = getattr(r1, nm), getattr(r0, nm)[:, pv]
+        if not _close(a, b, 1e-9, max(np.abs(b).max(), 1e-300))[0]:
+            _fail(out, fam, "mk_net_drms(reorder=True).%s differs from the result for the sorted b-set with its columns "
+                  "permuted the same way: recovered net responses change under boundary reordering" % nm, inp,
+                  float(np.abs(a - b).max()), "0 (1e-9 relative; max |.| = %g)" % np.abs(b).max())
+            break
+    return (out, kind) if with_kind else out
+
+
+def probe_nomodes(seed):
+    """cbcheck on a Craig-Bampton model with NO retained modes (Guyan reduction only).  New finding: _values_check
+    takes np.max of the empty MQQ diagonal -> ValueError, although cbcheck has an explicit branch for nq = 0."""
+    out = []
+    rng = np.random.default_rng(seed)
+    spec = gen_spec(rng)
+    if spec["nbg"] < 2:
+        spec["nbg"] += 1
+        spec["ngrids"] += 1
+        spec["gridperm"] = list(range(spec["nbg"]))
+    spec.update(nq=0, variant="valid", reorder=True)
+    for f in oracle_cbcheck(spec):
+        if "raises-ValueError" in f["family"]:
+            f = dict(f, family="cbcheck-no-modal-dof-raises-ValueError")
+        f["input"] = {"kind": "cbcheck-nomodes-probe", "spec": spec}
+        out.append(f)
+    return out
+
+
 def _run_kind(inp):
     k = inp["kind"]
+    if k == "solve_eig":
+        return oracle_solve_eig(inp)
+    if k == "rbdisp":
+        return oracle_rbdisp(inp)
+    if k == "netdrm":
+        return oracle_net(inp)
+    if k == "rbmult":
+        return oracle_rbmult(inp["seed"])
+    if k == "cbtf0":
+        return oracle_cbtf0(inp)
+    if k == "netdrm-reorder-probe":
+        return probe_net_reorder_spec(inp["spec"])
+    if k == "cbcheck-nomodes-probe":
+        return [dict(f, family="cbcheck-no-modal-dof-raises-ValueError" if "raises-ValueError" in f["family"] else f["family"],
+                     input=inp) for f in oracle_cbcheck(inp["spec"])]
     if k == "cbcheck":
         return oracle_cbcheck(inp["spec"])
     if k == "cbcheck-noreorder-probe":
@@ -1452,6 +2829,35 @@ def search(ctx, hints):
     for i in range(ctx.pick(60, 600)):
         fails += oracle_cbtf([ctx.seed, 77, i])
         ctx.count("oracle:cbtf")
+    rng = ctx.np_rng(7)
+    for c in eig_cases(rng, ctx.pick(40, 400)):
+        if c["massless"] and np.linalg.cond(c["k"][np.ix_(c["massless"], c["massless"])]) > 1e6:
+            continue
+        fails += oracle_solve_eig(c)
+        ctx.count("oracle:solve_eig")
+    rng = ctx.np_rng(8)
+    for c in rbdisp_cases(rng, ctx.pick(150, 1500)):
+        fails += oracle_rbdisp(c)
+        ctx.count("oracle:rbdispchk")
+    rng = ctx.np_rng(9)
+    for c in net_cases(rng, ctx.pick(40, 300)):
+        fails += oracle_net(c)
+        ctx.count("oracle:mk_net_drms")
+    for i in range(ctx.pick(60, 600)):
+        fails += oracle_rbmult([ctx.seed, 55, i])
+        ctx.count("oracle:rbmultchk")
+    rng = ctx.np_rng(11)
+    for c in cbtf0_cases(rng, ctx.pick(60, 600)):
+        fails += oracle_cbtf0(c)
+        ctx.count("oracle:cbtf-static")
+    for i in range(ctx.pick(10, 50)):
+        f, kind = probe_net_reorder([ctx.seed, 98, i])
+        fails += f[:1]
+        ctx.count("oracle:probe-netdrm-reorder-%s-%s" % (kind, "fails" if f else "holds"))
+    for i in range(ctx.pick(3, 12)):
+        f = probe_nomodes([ctx.seed, 97, i])
+        fails += f[:1]
+        ctx.count("oracle:probe-cbcheck-nomodes-" + ("fails" if f else "holds"))
     nprobe = 0
     for i in range(ctx.pick(12, 60)):
         f, spec = probe_noreorder([ctx.seed, 99, i])
